@@ -4,6 +4,8 @@
 -/
 import AriadneModel.Proofs.C01AbsGen
 import AriadneModel.Proofs.C01PlainVal
+import AriadneModel.Proofs.C01MixVal
+import AriadneModel.Proofs.C01Fold
 
 set_option linter.unusedSimpArgs false
 set_option linter.unusedVariables false
@@ -105,133 +107,603 @@ theorem collect_succ (S : Schema) (frags : List Fragment) (fuel : Nat) (rt : Str
 
 theorem isConditional_eq (dirs : List Directive) : Exec.isConditional dirs = hasConditionalDirective dirs := rfl
 
-theorem collect_abs (env : ResultTypes.Env) (frags : List Fragment) (k : Nat) (rt : String) (M : List Nat) {cn tn : String}
-    {rts : List String} (hrt : rt ∈ rts) :
-    ∀ (sels : List Selection) (acc : List Exec.Collected),
-      (∀ x ∈ sels, aSel1 env M.contains cn tn rts x = true) →
-      ((flatG env tn sels).map keyOf).Nodup →
-      (∀ x ∈ flatG env tn sels, ∀ c ∈ acc, c.key ≠ keyOf x) →
-      Exec.collect env.schema frags (k + 2) rt false (sels.map (Marks.applySel M)) acc =
-        acc ++ ((flatG env tn sels).map (Marks.applySel M)).map collOf := by
-  intro sels
-  induction sels with
-  | nil => intro acc _ _ _; simp [collect_succ, flatG]
+/-! the executor's view of the field nodes of a class: own nodes with the marks applied, inherited nodes as written -/
+
+def xs0 (env : ResultTypes.Env) (M : List Nat) : Selection → List Selection
+  | .field a n d s sub => [Marks.applySel M (.field a n d s sub)]
+  | .spread g _ => (inhOf env (C01Mix.fragDepth env) g).map (·.2)
+  | _ => []
+
+def xs1 (env : ResultTypes.Env) (tn : String) (M : List Nat) : Selection → List Selection
+  | .inline (some c) _ _ ss => if incl env c tn then ss.flatMap (xs0 env M) else []
+  | s => xs0 env M s
+
+/-- the field nodes of a class as the executor sees them -/
+def sentNodes (a : Bool) (M : List Nat) (env : ResultTypes.Env) (tn : String) (sel : List Selection) : List Selection :=
+  (if autoTn a sel then [Marks.typenameSel] else []) ++ sel.flatMap (xs1 env tn M)
+
+/-- the inherited nodes of a mixin fragment: fields, satisfying the conditions of the mixin tier -/
+theorem inhOf_spec (env : ResultTypes.Env) (K : Nat) (hfr : C01Mix.FragsOK env K) {g : String} {f : Fragment}
+    (hf : findFragment? env.frags g = some f) :
+    (∀ e, K ≤ e → C01Mix.mflat env e (pascal f.name) f.sel = inhOf env (C01Mix.fragDepth env) g) ∧
+    (∀ p ∈ inhOf env (C01Mix.fragDepth env) g, isField p.2 = true ∧ C01Mix.mLocal1 env K p.1 f.on p.2 = true ∧
+      ((p.1 = pascal f.name ∧ p.2 ∈ f.sel) ∨ (∃ f' ∈ env.frags, p.1 = pascal f'.name ∧ p.2 ∈ f'.sel ∧ f'.on = f.on))) := by
+  obtain ⟨_, _, _, hloc, hfull, hfullS⟩ := C01Mix.fragOK_spec (hfr f (C01Mix.find_mem hf).1)
+  have hK : C01Mix.mflat env (C01Mix.fragDepth env) (pascal f.name) f.sel = C01Mix.mflat env K (pascal f.name) f.sel :=
+    C01Mix.mflat_eq_both env _ _ _ _ hfullS (C01Mix.mfullS_of_mfull env K f.on f.sel hfull)
+  have hi : inhOf env (C01Mix.fragDepth env) g = C01Mix.mflat env K (pascal f.name) f.sel := by
+    simp only [inhOf, hf]; exact hK
+  refine ⟨fun e he => ?_, fun p hp => ?_⟩
+  · rw [hi]; exact C01Mix.mflat_eq_of_le env K e f.on _ f.sel hfull he
+  · rw [hi] at hp
+    exact C01Mix.mflat_mem env K hfr K (pascal f.name) f.on f.sel hloc p.1 p.2 hp
+
+theorem xs0_keys (env : ResultTypes.Env) (M : List Nat) (s : Selection) :
+    (xs0 env M s).map keyOf = (c0 env s).map keyOf := by
+  cases s with
+  | field a n d sid sub => simp [xs0, c0, applySel_field, keyOf]
+  | spread g d => rfl
+  | inline on d sid ss => rfl
+
+theorem flatMap_map_congr {α β γ : Type} (f g : α → List β) (φ : β → γ) :
+    ∀ (l : List α), (∀ a ∈ l, (f a).map φ = (g a).map φ) → (l.flatMap f).map φ = (l.flatMap g).map φ
+  | [], _ => rfl
+  | a :: l, h => by
+    simp only [List.flatMap_cons, List.map_append, h a List.mem_cons_self,
+      flatMap_map_congr f g φ l (fun b hb => h b (List.mem_cons_of_mem _ hb))]
+
+theorem xs1_keys (env : ResultTypes.Env) (tn : String) (M : List Nat) (s : Selection) :
+    (xs1 env tn M s).map keyOf = (c1 env tn s).map keyOf := by
+  cases s with
+  | field a n d sid sub => simp only [xs1, c1]; exact xs0_keys env M _
+  | spread g d => rfl
+  | inline on d sid ss =>
+    cases on with
+    | none => rfl
+    | some c =>
+      simp only [xs1, c1]
+      split
+      · exact flatMap_map_congr _ _ _ ss (fun y _ => xs0_keys env M y)
+      · rfl
+
+theorem sentNodes_keys (a : Bool) (M : List Nat) (env : ResultTypes.Env) (tn : String) (sel : List Selection) :
+    (sentNodes a M env tn sel).map keyOf = (cnodes a env tn sel).map keyOf := by
+  unfold sentNodes cnodes
+  rw [List.map_append, List.map_append]
+  congr 1
+  exact flatMap_map_congr _ _ _ sel (fun y _ => xs1_keys env tn M y)
+
+/-- all nodes the executor sees are fields -/
+theorem xs0_isField (env : ResultTypes.Env) (K : Nat) (hfr : C01Mix.FragsOK env K) (M : List Nat) {mk : Nat → Bool}
+    {cn tn : String} {rts : List String} {s : Selection} (h : aSel1 env mk cn tn rts s = true) :
+    ∀ y ∈ xs0 env M s, isField y = true := by
+  intro y hy
+  cases s with
+  | field a n d sid sub =>
+    simp only [xs0, List.mem_singleton] at hy
+    subst hy
+    exact isField_applySel M _ rfl
+  | spread g d =>
+    obtain ⟨_, _, _, f, hf, _⟩ := aSel1_spread h
+    simp only [xs0] at hy
+    obtain ⟨p, hp, rfl⟩ := List.mem_map.mp hy
+    exact ((inhOf_spec env K hfr hf).2 p hp).1
+  | inline on d sid ss => simp [xs0] at hy
+
+theorem xs1_isField (env : ResultTypes.Env) (K : Nat) (hfr : C01Mix.FragsOK env K) (M : List Nat) {mk : Nat → Bool}
+    {cn tn : String} {rts : List String} {s : Selection} (h : aSel1 env mk cn tn rts s = true) :
+    ∀ y ∈ xs1 env tn M s, isField y = true := by
+  intro y hy
+  cases s with
+  | field a n d sid sub => exact xs0_isField env K hfr M h y hy
+  | spread g d => exact xs0_isField env K hfr M h y hy
+  | inline on d sid ss =>
+    cases on with
+    | none => simp [aSel1] at h
+    | some c =>
+      simp only [xs1] at hy
+      by_cases hi : incl env c tn = true
+      · simp only [hi, if_true] at hy
+        obtain ⟨z, hz, hyz⟩ := List.mem_flatMap.mp hy
+        exact xs0_isField env K hfr M ((aSels_iff _ _ _ _ _ _).mp (aSel1_inline h hi).2.2 z hz) y hyz
+      · simp [hi] at hy
+
+/-! CollectFields as a fold of `Exec.addCollected` over the field nodes (selections of the same response key are merged) -/
+
+theorem foldl_flatMap_append {α β : Type} (f : β → α → β) (l1 l2 : List α) (acc : β) :
+    (l1 ++ l2).foldl f acc = l2.foldl f (l1.foldl f acc) := List.foldl_append
+
+/-- CollectFields on the selection set of a mixin fragment -/
+theorem collect_mix_fold (env : ResultTypes.Env) (K : Nat) (hfr : C01Mix.FragsOK env K) (rt : String) :
+    ∀ (e : Nat) (cn : String) (sels : List Selection) (acc : List Exec.Collected),
+      C01Mix.mLocal env K cn rt sels = true →
+      Exec.collect env.schema env.frags e rt false sels acc =
+        ((C01Mix.mflat env e cn sels).map (fun p => collOf p.2)).foldl Exec.addCollected acc
+  | 0, cn, sels, acc, _ => by simp [Exec.collect, C01Mix.mflat]
+  | e + 1, cn, sels, acc, hloc => by
+    rw [collect_succ]
+    revert acc hloc
+    induction sels with
+    | nil => intro acc _; simp [C01Mix.mflat_succ]
+    | cons x rest ih =>
+      intro acc hloc
+      have hlocs := (C01Mix.mLocal_iff env K cn rt (x :: rest)).mp hloc
+      have hx := hlocs x List.mem_cons_self
+      have hlocr : C01Mix.mLocal env K cn rt rest = true :=
+        (C01Mix.mLocal_iff env K cn rt rest).mpr (fun y hy => hlocs y (List.mem_cons_of_mem _ hy))
+      have hsplit : C01Mix.mflat env (e + 1) cn (x :: rest) = C01Mix.mflat env (e + 1) cn [x] ++ C01Mix.mflat env (e + 1) cn rest := by
+        simp [C01Mix.mflat_succ]
+      rw [List.foldl_cons, hsplit, List.map_append, List.foldl_append, ← ih _ hlocr]
+      congr 1
+      cases x with
+      | inline on d sid ss => simp [C01Mix.mLocal1] at hx
+      | field alias name dirs sid sub =>
+        simp [C01Mix.mflat_succ, collectStep, collOf]
+      | spread n d =>
+        obtain ⟨hcond, f, hf, hon⟩ := C01Mix.mLocal1_spread hx
+        obtain ⟨_, _, _, hlocf, _⟩ := C01Mix.fragOK_spec (hfr f (C01Mix.find_mem hf).1)
+        have happ : Exec.applies env.schema (some f.on) rt = true := by simp [Exec.applies, hon]
+        have hc0 : Exec.isConditional d = false := hcond
+        rw [hon] at hlocf
+        have h1 : C01Mix.mflat env (e + 1) cn [.spread n d] = C01Mix.mflat env e (pascal f.name) f.sel := by
+          simp [C01Mix.mflat_succ, hf]
+        simp only [collectStep, hf, happ, if_true, hc0, Bool.or_false, h1]
+        exact collect_mix_fold env K hfr rt e (pascal f.name) f.sel acc hlocf
+
+/-- CollectFields on the field nodes of one mixin fragment -/
+theorem collect_frag (env : ResultTypes.Env) (K : Nat) (hfr : C01Mix.FragsOK env K) (e : Nat) (hKe : K ≤ e)
+    {g : String} {f : Fragment} (hf : findFragment? env.frags g = some f) (acc : List Exec.Collected) :
+    Exec.collect env.schema env.frags e f.on false f.sel acc =
+      (((inhOf env (C01Mix.fragDepth env) g).map (·.2)).map collOf).foldl Exec.addCollected acc := by
+  obtain ⟨_, _, _, hloc, _, _⟩ := C01Mix.fragOK_spec (hfr f (C01Mix.find_mem hf).1)
+  have he := (inhOf_spec env K hfr hf).1 e hKe
+  rw [collect_mix_fold env K hfr f.on e (pascal f.name) f.sel acc hloc, he, List.map_map]
+  rfl
+
+/-- CollectFields on fields and mixin spreads (a whole plain set, or the content of a merged inline fragment) -/
+theorem collect_content (env : ResultTypes.Env) (K : Nat) (hfr : C01Mix.FragsOK env K) (e : Nat) (hKe : K ≤ e) (rt : String)
+    (M : List Nat) {cn tn : String} {rts : List String} (hrt : rt ∈ rts) :
+    ∀ (ss : List Selection) (acc : List Exec.Collected),
+      (∀ y ∈ ss, aSel1 env M.contains cn tn rts y = true) → (∀ y ∈ ss, isField y = true ∨ isSpreadSel y = true) →
+      Exec.collect env.schema env.frags (e + 1) rt false (ss.map (Marks.applySel M)) acc =
+        ((ss.flatMap (xs0 env M)).map collOf).foldl Exec.addCollected acc := by
+  intro ss
+  induction ss with
+  | nil => intro acc _ _; simp [collect_succ]
   | cons x rest ih =>
-    intro acc h hnd hdisj
+    intro acc h hshape
     have hx := h x List.mem_cons_self
     have hr := fun y hy => h y (List.mem_cons_of_mem _ hy)
-    rw [collect_succ, List.map_cons, List.foldl_cons, ← collect_succ]
-    have hflat : flatG env tn (x :: rest) = flat1 env tn x ++ flatG env tn rest := by simp [flatG]
-    rw [hflat, List.map_append, List.nodup_append] at hnd
-    obtain ⟨hnd1, hnd2, hnd3⟩ := hnd
+    have hsr := fun y hy => hshape y (List.mem_cons_of_mem _ hy)
+    rw [collect_succ, List.map_cons, List.foldl_cons, ← collect_succ, ih _ hr hsr,
+      List.flatMap_cons, List.map_append, List.foldl_append]
+    congr 1
     cases x with
-    | spread n d => simp [aSel1] at hx
+    | inline on d sid ss' => have := hshape _ List.mem_cons_self; simp [isField, isSpreadSel] at this
     | field alias name dirs sid sub =>
-      have hstep : collectStep env.schema frags (k + 1) rt false acc (Marks.applySel M (.field alias name dirs sid sub)) =
-          acc ++ [collOf (Marks.applySel M (.field alias name dirs sid sub))] := by
-        rw [applySel_field]
-        simp only [collectStep]
-        rw [addCollected_fresh acc _ (by
-          intro c hc
-          exact hdisj (.field alias name dirs sid sub) (by rw [hflat]; simp [flat1]) c hc)]
-        rfl
-      rw [hstep, ih _ hr hnd2 (by
-        intro y hy c hc
-        rcases List.mem_append.mp hc with hc | hc
-        · exact hdisj y (by rw [hflat]; exact List.mem_append_right _ hy) c hc
-        · have : c = collOf (Marks.applySel M (.field alias name dirs sid sub)) := by simpa using hc
-          subst this
-          rw [applySel_field]
-          intro e
-          exact hnd3 (keyOf (.field alias name dirs sid sub)) (by simp [flat1]) (keyOf y)
-            (List.mem_map.mpr ⟨y, hy, rfl⟩) e)]
-      simp [hflat, flat1, List.append_assoc]
+      rw [applySel_field]
+      simp [collectStep, xs0, applySel_field, collOf]
+    | spread g d =>
+      obtain ⟨hcond, _, hall, f, hf, hon⟩ := aSel1_spread hx
+      have hrt' : rt = tn := hall rt hrt
+      have happ : Exec.applies env.schema (some f.on) rt = true := by simp [Exec.applies, hon, hrt']
+      have e1 : Marks.applySel M (.spread g d) = .spread g d := by simp [Marks.applySel]
+      rw [e1]
+      simp only [collectStep, hf, happ, if_true, isConditional_eq, hcond, Bool.or_false, xs0]
+      have := collect_frag env K hfr e hKe hf acc
+      rw [hon, ← hrt'] at this
+      exact this
+
+theorem collect_abs (env : ResultTypes.Env) (K : Nat) (hfr : C01Mix.FragsOK env K) (k : Nat) (hKk : K ≤ k) (rt : String)
+    (M : List Nat) {cn tn : String} {rts : List String} (hrt : rt ∈ rts) :
+    ∀ (sels : List Selection) (acc : List Exec.Collected),
+      (∀ x ∈ sels, aSel1 env M.contains cn tn rts x = true) →
+      Exec.collect env.schema env.frags (k + 2) rt false (sels.map (Marks.applySel M)) acc =
+        ((sels.flatMap (xs1 env tn M)).map collOf).foldl Exec.addCollected acc := by
+  intro sels
+  induction sels with
+  | nil => intro acc _; simp [collect_succ]
+  | cons x rest ih =>
+    intro acc h
+    have hx := h x List.mem_cons_self
+    have hr := fun y hy => h y (List.mem_cons_of_mem _ hy)
+    have hsplit : Exec.collect env.schema env.frags (k + 2) rt false ((x :: rest).map (Marks.applySel M)) acc =
+        Exec.collect env.schema env.frags (k + 2) rt false (rest.map (Marks.applySel M))
+          (Exec.collect env.schema env.frags (k + 2) rt false [Marks.applySel M x] acc) := by
+      simp [collect_succ]
+    rw [hsplit, ih _ hr, List.flatMap_cons, List.map_append, List.foldl_append]
+    congr 1
+    cases x with
+    | field alias name dirs sid sub =>
+      have := collect_content env K hfr (k + 1) (by omega) rt M hrt [.field alias name dirs sid sub] acc
+        (fun y hy => by simp at hy; subst hy; exact hx) (fun y hy => by simp at hy; subst hy; exact Or.inl rfl)
+      simpa [xs1] using this
+    | spread g d =>
+      have := collect_content env K hfr (k + 1) (by omega) rt M hrt [.spread g d] acc
+        (fun y hy => by simp at hy; subst hy; exact hx) (fun y hy => by simp at hy; subst hy; exact Or.inr rfl)
+      simpa [xs1] using this
     | inline on d sid ss =>
       cases on with
       | none => simp [aSel1] at hx
       | some c =>
-        simp only [aSel1, Bool.and_eq_true, Bool.not_eq_true', List.all_eq_true, beq_iff_eq, Bool.or_eq_true] at hx
-        obtain ⟨⟨hcond, hagree⟩, hcontent⟩ := hx
+        have hx' := hx
+        simp only [aSel1, Bool.and_eq_true, Bool.not_eq_true', List.all_eq_true, beq_iff_eq] at hx'
+        obtain ⟨⟨hcond, hagree⟩, _⟩ := hx'
         have happ : Exec.applies env.schema (some c) rt = incl env c tn := (hagree rt hrt).symm
-        rw [applySel_inline]
+        rw [collect_succ, List.foldl_cons, List.foldl_nil, applySel_inline]
         simp only [collectStep, happ, isConditional_eq, hcond, Bool.or_false]
         by_cases hi : incl env c tn = true
-        · have hcontent' : (∀ y ∈ ss, notTnField y = true) := by
-            rcases hcontent with h | h
-            · rw [hi] at h; cases h
-            · exact h.1
-          have hfields : ∀ y ∈ ss, isField y = true := fun y hy => notTnField_isField (hcontent' y hy)
-          have hfl1 : flat1 env tn (.inline (some c) d sid ss) = ss := by simp [flat1, hi]
-          rw [hfl1] at hnd1 hnd3
-          simp only [hi, if_true]
+        · obtain ⟨_, hcont, hss⟩ := aSel1_inline hx hi
+          simp only [hi, if_true, xs1]
           rw [applySels_map]
-          rw [collect_fields env.schema frags k rt (ss.map (Marks.applySel M)) acc
-            (by intro y hy; obtain ⟨z, hz, rfl⟩ := List.mem_map.mp hy; exact isField_applySel M z (hfields z hz))
-            (by
-              rw [List.map_map]
-              have : (keyOf ∘ Marks.applySel M) = fun z => keyOf (Marks.applySel M z) := rfl
-              rw [List.map_congr_left (g := keyOf) (fun z hz => by simp [keyOf_applySel M z (hfields z hz)])]
-              exact hnd1)
-            (by
-              intro y hy c' hc'
-              obtain ⟨z, hz, rfl⟩ := List.mem_map.mp hy
-              rw [keyOf_applySel M z (hfields z hz)]
-              exact hdisj z (by rw [hflat, hfl1]; exact List.mem_append_left _ hz) c' hc')]
-          rw [ih _ hr hnd2 (by
-            intro y hy c' hc'
-            rcases List.mem_append.mp hc' with hc' | hc'
-            · exact hdisj y (by rw [hflat]; exact List.mem_append_right _ hy) c' hc'
-            · obtain ⟨z', hz', rfl⟩ := List.mem_map.mp hc'
-              obtain ⟨z, hz, rfl⟩ := List.mem_map.mp hz'
-              rw [collOf_key (isField_applySel M z (hfields z hz)), keyOf_applySel M z (hfields z hz)]
-              intro e
-              exact hnd3 (keyOf z) (List.mem_map.mpr ⟨z, hz, rfl⟩) (keyOf y) (List.mem_map.mpr ⟨y, hy, rfl⟩) e)]
-          simp [hflat, hfl1, List.append_assoc]
+          exact collect_content env K hfr k hKk rt M hrt ss acc ((aSels_iff _ _ _ _ _ _).mp hss)
+            (fun y hy => by
+              rcases hcont y hy with h1 | h1
+              · exact Or.inl (notTnField_isField h1)
+              · exact Or.inr h1.1)
         · have hi' : incl env c tn = false := by simpa using hi
-          have hfl1 : flat1 env tn (.inline (some c) d sid ss) = [] := by simp [flat1, hi']
-          simp only [hi', Bool.false_eq_true, if_false]
-          rw [ih _ hr hnd2 (by
-            intro y hy c' hc'
-            exact hdisj y (by rw [hflat]; exact List.mem_append_right _ hy) c' hc')]
-          simp [hflat, hfl1]
-
-/-- the field nodes of a class as the executor sees them -/
-def sentFlat (a : Bool) (M : List Nat) (env : ResultTypes.Env) (tn : String) (sel : List Selection) : List Selection :=
-  (rflat a env tn sel).map (Marks.applySel M)
+          simp [hi', xs1]
 
 theorem rflat_isField {env : ResultTypes.Env} {mk : Nat → Bool} {cn tn : String} {rts : List String} {sel : List Selection} (a : Bool)
     (h : aSels env mk cn tn rts sel = true) : ∀ x ∈ rflat a env tn sel, isField x = true :=
   fun x hx => (rflat_spec a h x hx).1
 
-theorem collect_sent (env : ResultTypes.Env) (frags : List Fragment) (k : Nat) (rt : String) (M : List Nat) {cn tn : String}
+theorem sentNodes_isField (env : ResultTypes.Env) (K : Nat) (hfr : C01Mix.FragsOK env K) (M : List Nat) {mk : Nat → Bool}
+    {cn tn : String} {rts : List String} {sel : List Selection} (a : Bool)
+    (h : aSels env mk cn tn rts sel = true) : ∀ y ∈ sentNodes a M env tn sel, isField y = true := by
+  intro y hy
+  unfold sentNodes at hy
+  rcases List.mem_append.mp hy with h1 | h1
+  · split at h1
+    · have : y = Marks.typenameSel := by simpa using h1
+      subst this; rfl
+    · cases h1
+  · obtain ⟨z, hz, hyz⟩ := List.mem_flatMap.mp h1
+    exact xs1_isField env K hfr M ((aSels_iff _ _ _ _ _ _).mp h z hz) y hyz
+
+theorem collect_sent (env : ResultTypes.Env) (K : Nat) (hfr : C01Mix.FragsOK env K) (k : Nat) (hKk : K ≤ k) (rt : String)
+    (M : List Nat) {cn tn : String}
     {rts : List String} (hrt : rt ∈ rts) (a : Bool) (sel : List Selection)
-    (hloc : aSels env M.contains cn tn rts sel = true)
-    (hkeys : ((rflat a env tn sel).map keyOf).Nodup) :
-    Exec.collect env.schema frags (k + 2) rt false (sent a M sel) [] = (sentFlat a M env tn sel).map collOf := by
+    (hloc : aSels env M.contains cn tn rts sel = true) :
+    Exec.collect env.schema env.frags (k + 2) rt false (sent a M sel) [] =
+      ((sentNodes a M env tn sel).map collOf).foldl Exec.addCollected [] := by
   have hlocs := (aSels_iff env M.contains cn tn rts sel).mp hloc
-  unfold sent sentFlat rflat at *
+  unfold sent sentNodes
   rw [applySels_map]
   by_cases hauto : autoTn a sel = true
-  · simp only [hauto, if_true, List.singleton_append, List.map_cons, List.nodup_cons] at hkeys ⊢
+  · simp only [hauto, if_true, List.singleton_append, List.map_cons, List.foldl_cons]
     rw [collect_succ, List.foldl_cons, ← collect_succ]
-    have hstep : collectStep env.schema frags (k + 1) rt false [] Marks.typenameSel = [collOf Marks.typenameSel] := by
+    have hstep : collectStep env.schema env.frags (k + 1) rt false [] Marks.typenameSel = Exec.addCollected [] (collOf Marks.typenameSel) := by
       simp only [Marks.typenameSel, collectStep]
-      rw [addCollected_fresh [] _ (by intro c hc; cases hc)]
       rfl
-    rw [hstep, collect_abs env frags k rt M hrt sel _ hlocs hkeys.2 (by
-      intro y hy c hc
-      have : c = collOf Marks.typenameSel := by simpa using hc
-      subst this
-      intro e
-      apply hkeys.1
-      have e' : keyOf Marks.typenameSel = keyOf y := e
-      rw [e']
-      exact List.mem_map.mpr ⟨y, hy, rfl⟩)]
-    simp [applySel_tn]
+    rw [hstep, collect_abs env K hfr k hKk rt M hrt sel _ hlocs]
   · have hauto' : autoTn a sel = false := by simpa using hauto
-    simp only [hauto', Bool.false_eq_true, if_false, List.nil_append] at hkeys ⊢
-    rw [collect_abs env frags k rt M hrt sel [] hlocs hkeys (by intro _ _ c hc; cases hc)]
-    simp
+    simp only [hauto', Bool.false_eq_true, if_false, List.nil_append]
+    rw [collect_abs env K hfr k hKk rt M hrt sel [] hlocs]
+
+/-! ### the field nodes of a class, tagged with where they are declared (`none` = in the class itself) -/
+
+abbrev TNode := Option String × Selection
+
+def t0 (env : ResultTypes.Env) : Selection → List TNode
+  | .field a n d s sub => [(none, .field a n d s sub)]
+  | .spread g _ => (inhOf env (C01Mix.fragDepth env) g).map (fun p => (some p.1, p.2))
+  | _ => []
+
+def t1 (env : ResultTypes.Env) (tn : String) : Selection → List TNode
+  | .inline (some c) _ _ ss => if incl env c tn then ss.flatMap (t0 env) else []
+  | s => t0 env s
+
+def tnodes (a : Bool) (env : ResultTypes.Env) (tn : String) (sel : List Selection) : List TNode :=
+  (if autoTn a sel then [(none, Marks.typenameSel)] else []) ++ sel.flatMap (t1 env tn)
+
+/-- the node as the executor sees it -/
+def sentOf (M : List Nat) (t : TNode) : Selection :=
+  match t.1 with
+  | none => Marks.applySel M t.2
+  | some _ => t.2
+
+theorem flatMap_map' {α β γ : Type} (f : α → List β) (φ : β → γ) : ∀ (l : List α),
+    (l.flatMap f).map φ = l.flatMap (fun a => (f a).map φ)
+  | [] => rfl
+  | a :: l => by simp only [List.flatMap_cons, List.map_append, flatMap_map' f φ l]
+
+theorem t0_snd (env : ResultTypes.Env) (s : Selection) : (t0 env s).map (·.2) = c0 env s := by
+  cases s with
+  | field a n d sid sub => rfl
+  | spread g d => simp [t0, c0, List.map_map, Function.comp_def]
+  | inline on d sid ss => rfl
+
+theorem t1_snd (env : ResultTypes.Env) (tn : String) (s : Selection) : (t1 env tn s).map (·.2) = c1 env tn s := by
+  cases s with
+  | field a n d sid sub => simp only [t1, c1]; exact t0_snd env _
+  | spread g d => simp only [t1, c1]; exact t0_snd env _
+  | inline on d sid ss =>
+    cases on with
+    | none => rfl
+    | some c =>
+      simp only [t1, c1]
+      split
+      · rw [flatMap_map']
+        exact C01Mix.flatMap_congr' ss _ _ (fun y _ => t0_snd env y)
+      · rfl
+
+theorem tnodes_snd (a : Bool) (env : ResultTypes.Env) (tn : String) (sel : List Selection) :
+    (tnodes a env tn sel).map (·.2) = cnodes a env tn sel := by
+  unfold tnodes cnodes
+  rw [List.map_append, flatMap_map']
+  congr 1
+  · split <;> rfl
+  · exact C01Mix.flatMap_congr' sel _ _ (fun y _ => t1_snd env tn y)
+
+theorem t0_sent (env : ResultTypes.Env) (M : List Nat) (s : Selection) : (t0 env s).map (sentOf M) = xs0 env M s := by
+  cases s with
+  | field a n d sid sub => rfl
+  | spread g d => simp [t0, xs0, List.map_map, Function.comp_def, sentOf]
+  | inline on d sid ss => rfl
+
+theorem t1_sent (env : ResultTypes.Env) (tn : String) (M : List Nat) (s : Selection) :
+    (t1 env tn s).map (sentOf M) = xs1 env tn M s := by
+  cases s with
+  | field a n d sid sub => simp only [t1, xs1]; exact t0_sent env M _
+  | spread g d => simp only [t1, xs1]; exact t0_sent env M _
+  | inline on d sid ss =>
+    cases on with
+    | none => rfl
+    | some c =>
+      simp only [t1, xs1]
+      split
+      · rw [flatMap_map']
+        exact C01Mix.flatMap_congr' ss _ _ (fun y _ => t0_sent env M y)
+      · rfl
+
+theorem tnodes_sent (a : Bool) (M : List Nat) (env : ResultTypes.Env) (tn : String) (sel : List Selection) :
+    (tnodes a env tn sel).map (sentOf M) = sentNodes a M env tn sel := by
+  unfold tnodes sentNodes
+  rw [List.map_append, flatMap_map']
+  congr 1
+  · split
+    · simp [sentOf, applySel_tn]
+    · rfl
+  · exact C01Mix.flatMap_congr' sel _ _ (fun y _ => t1_sent env tn M y)
+
+/-- the fragment `g` is spread in the class on `tn`: directly, or inside a merged inline fragment -/
+def occurs (env : ResultTypes.Env) (tn : String) (sel : List Selection) (g : String) : Prop :=
+  ∃ s ∈ sel, (∃ d, s = Selection.spread g d) ∨
+    (∃ c d sid ss d', s = Selection.inline (some c) d sid ss ∧ incl env c tn = true ∧ Selection.spread g d' ∈ ss)
+
+theorem mem_setAdd (a x : String) (acc : List String) : a ∈ setAdd acc x ↔ a ∈ acc ∨ a = x := by
+  have := C01Mix.mem_setAdd_foldl a [x] acc
+  simpa using this
+
+theorem mem_gSpreads_fold (env : ResultTypes.Env) (tn g : String) : ∀ (sel : List Selection) (acc : List String),
+    g ∈ sel.foldl (gSpreadStep env tn) acc ↔ g ∈ acc ∨ occurs env tn sel g
+  | [], acc => by simp [occurs]
+  | s :: rest, acc => by
+    rw [List.foldl_cons, mem_gSpreads_fold env tn g rest]
+    have hocc : occurs env tn (s :: rest) g ↔
+        ((∃ d, s = Selection.spread g d) ∨
+          (∃ c d sid ss d', s = Selection.inline (some c) d sid ss ∧ incl env c tn = true ∧ Selection.spread g d' ∈ ss)) ∨
+        occurs env tn rest g := by
+      unfold occurs
+      constructor
+      · rintro ⟨x, hx, h⟩
+        rcases List.mem_cons.mp hx with rfl | hx
+        · exact Or.inl h
+        · exact Or.inr ⟨x, hx, h⟩
+      · rintro (h | ⟨x, hx, h⟩)
+        · exact ⟨s, List.mem_cons_self, h⟩
+        · exact ⟨x, List.mem_cons_of_mem _ hx, h⟩
+    rw [hocc]
+    cases s with
+    | field a n d sid sub =>
+      simp only [gSpreadStep]
+      constructor
+      · rintro (h | h)
+        · exact Or.inl h
+        · exact Or.inr (Or.inr h)
+      · rintro (h | (h | h) | h)
+        · exact Or.inl h
+        · obtain ⟨d, hd⟩ := h; cases hd
+        · obtain ⟨_, _, _, _, _, hd, _⟩ := h; cases hd
+        · exact Or.inr h
+    | spread g' d =>
+      simp only [gSpreadStep, mem_setAdd]
+      constructor
+      · rintro ((h | h) | h)
+        · exact Or.inl h
+        · exact Or.inr (Or.inl (Or.inl ⟨d, by rw [h]⟩))
+        · exact Or.inr (Or.inr h)
+      · rintro (h | (h | h) | h)
+        · exact Or.inl (Or.inl h)
+        · obtain ⟨d', hd⟩ := h
+          simp only [Selection.spread.injEq] at hd
+          exact Or.inl (Or.inr hd.1.symm)
+        · obtain ⟨_, _, _, _, _, hd, _⟩ := h; cases hd
+        · exact Or.inr h
+    | inline on d sid ss =>
+      cases on with
+      | none =>
+        simp only [gSpreadStep]
+        constructor
+        · rintro (h | h)
+          · exact Or.inl h
+          · exact Or.inr (Or.inr h)
+        · rintro (h | (h | h) | h)
+          · exact Or.inl h
+          · obtain ⟨d, hd⟩ := h; cases hd
+          · obtain ⟨_, _, _, _, _, hd, _⟩ := h; cases hd
+          · exact Or.inr h
+      | some c =>
+        simp only [gSpreadStep]
+        by_cases hi : incl env c tn = true
+        · simp only [hi, if_true]
+          have hu : g ∈ setUnion acc (C01Mix.spreadNames ss) ↔ g ∈ acc ∨ ∃ d', Selection.spread g d' ∈ ss := by
+            unfold setUnion
+            rw [C01Mix.mem_setAdd_foldl, C01Mix.mem_spreadNames]
+          rw [hu]
+          constructor
+          · rintro ((h | ⟨d', h⟩) | h)
+            · exact Or.inl h
+            · exact Or.inr (Or.inl (Or.inr ⟨c, d, sid, ss, d', rfl, hi, h⟩))
+            · exact Or.inr (Or.inr h)
+          · rintro (h | (h | h) | h)
+            · exact Or.inl (Or.inl h)
+            · obtain ⟨d', hd⟩ := h; cases hd
+            · obtain ⟨c', d1, sid1, ss1, d', hd, _, hm⟩ := h
+              simp only [Selection.inline.injEq] at hd
+              obtain ⟨_, _, _, rfl⟩ := hd
+              exact Or.inl (Or.inr ⟨d', hm⟩)
+            · exact Or.inr h
+        · have hi' : incl env c tn = false := by simpa using hi
+          simp only [hi', Bool.false_eq_true, if_false]
+          constructor
+          · rintro (h | h)
+            · exact Or.inl h
+            · exact Or.inr (Or.inr h)
+          · rintro (h | (h | h) | h)
+            · exact Or.inl h
+            · obtain ⟨d', hd⟩ := h; cases hd
+            · obtain ⟨c', d1, sid1, ss1, d', hd, hic, _⟩ := h
+              simp only [Selection.inline.injEq, Option.some.injEq] at hd
+              obtain ⟨rfl, _, _, _⟩ := hd
+              rw [hi'] at hic; cases hic
+            · exact Or.inr h
+
+theorem mem_gSpreads (env : ResultTypes.Env) (tn : String) (sel : List Selection) (g : String) :
+    g ∈ gSpreads env tn sel ↔ occurs env tn sel g := by
+  unfold gSpreads
+  rw [mem_gSpreads_fold]
+  simp
+
+/-- what an occurrence of a spread means in the tier -/
+theorem occurs_spec {env : ResultTypes.Env} {mk : Nat → Bool} {cn tn : String} {rts : List String} {sel : List Selection}
+    (hloc : aSels env mk cn tn rts sel = true) {g : String} (h : occurs env tn sel g) :
+    env.schema.kindOf? tn = some .object ∧ (∀ rt ∈ rts, rt = tn) ∧ ∃ f, findFragment? env.frags g = some f ∧ f.on = tn := by
+  obtain ⟨s, hs, h1 | h1⟩ := h
+  · obtain ⟨d, rfl⟩ := h1
+    obtain ⟨_, h2, h3, h4⟩ := aSel1_spread ((aSels_iff _ _ _ _ _ _).mp hloc _ hs)
+    exact ⟨h2, h3, h4⟩
+  · obtain ⟨c, d, sid, ss, d', rfl, hi, hm⟩ := h1
+    obtain ⟨_, _, hss⟩ := aSel1_inline ((aSels_iff _ _ _ _ _ _).mp hloc _ hs) hi
+    obtain ⟨_, h2, h3, h4⟩ := aSel1_spread ((aSels_iff _ _ _ _ _ _).mp hss _ hm)
+    exact ⟨h2, h3, h4⟩
+
+/-- own nodes -/
+theorem tnodes_own (a : Bool) (env : ResultTypes.Env) (tn : String) (sel : List Selection) (x : Selection) :
+    (none, x) ∈ tnodes a env tn sel ↔ x ∈ rflat a env tn sel := by
+  unfold tnodes rflat flatG
+  simp only [List.mem_append, List.mem_flatMap]
+  constructor
+  · rintro (h | ⟨s, hs, hx⟩)
+    · left
+      split at h
+      · rename_i ha
+        have : x = Marks.typenameSel := by simpa using h
+        subst this; simp [ha]
+      · cases h
+    · right
+      refine ⟨s, hs, ?_⟩
+      cases s with
+      | field a' n d sid sub => simpa [t1, t0, flat1] using hx
+      | spread g d => simp [t1, t0] at hx
+      | inline on d sid ss =>
+        cases on with
+        | none => simp [t1, t0] at hx
+        | some c =>
+          simp only [t1, flat1] at hx ⊢
+          split at hx
+          · rename_i hi
+            simp only [hi, if_true]
+            obtain ⟨z, hz, hxz⟩ := List.mem_flatMap.mp hx
+            cases z with
+            | field a' n d' sid' sub =>
+              have : x = .field a' n d' sid' sub := by simpa [t0] using hxz
+              subst this
+              exact List.mem_filter.mpr ⟨hz, rfl⟩
+            | spread g d' => simp [t0] at hxz
+            | inline on' d' sid' ss' => simp [t0] at hxz
+          · cases hx
+  · rintro (h | ⟨s, hs, hx⟩)
+    · left
+      split at h
+      · rename_i ha
+        have : x = Marks.typenameSel := by simpa using h
+        subst this; simp [ha]
+      · cases h
+    · right
+      refine ⟨s, hs, ?_⟩
+      cases s with
+      | field a' n d sid sub => simpa [t1, t0, flat1] using hx
+      | spread g d => simp [flat1] at hx
+      | inline on d sid ss =>
+        cases on with
+        | none => simp [flat1] at hx
+        | some c =>
+          simp only [t1, flat1] at hx ⊢
+          split at hx
+          · rename_i hi
+            simp only [hi, if_true]
+            obtain ⟨hz, hf⟩ := List.mem_filter.mp hx
+            refine List.mem_flatMap.mpr ⟨x, hz, ?_⟩
+            cases x <;> simp [isField] at hf
+            simp [t0]
+          · cases hx
+
+/-- inherited nodes -/
+theorem tnodes_inh (a : Bool) (env : ResultTypes.Env) (tn : String) (sel : List Selection) (o : String) (y : Selection) :
+    (some o, y) ∈ tnodes a env tn sel ↔ ∃ g, occurs env tn sel g ∧ (o, y) ∈ inhOf env (C01Mix.fragDepth env) g := by
+  unfold tnodes
+  simp only [List.mem_append, List.mem_flatMap]
+  have h0 : ∀ z : Selection, (some o, y) ∈ t0 env z ↔ ∃ g d, z = Selection.spread g d ∧ (o, y) ∈ inhOf env (C01Mix.fragDepth env) g := by
+    intro z
+    cases z with
+    | field a' n d sid sub => simp [t0]
+    | inline on d sid ss => simp [t0]
+    | spread g d =>
+      simp only [t0, List.mem_map, Selection.spread.injEq]
+      constructor
+      · rintro ⟨p, hp, he⟩
+        simp only [Prod.mk.injEq, Option.some.injEq] at he
+        refine ⟨g, d, ⟨rfl, rfl⟩, ?_⟩
+        rw [← he.1, ← he.2]; exact hp
+      · rintro ⟨g', d', ⟨rfl, rfl⟩, hp⟩
+        exact ⟨(o, y), hp, rfl⟩
+  constructor
+  · rintro (h | ⟨s, hs, hx⟩)
+    · split at h
+      · simp at h
+      · cases h
+    · cases s with
+      | field a' n d sid sub => simp [t1, t0] at hx
+      | spread g d =>
+        have := (h0 (.spread g d)).mp (by simpa [t1] using hx)
+        obtain ⟨g', d', he, hp⟩ := this
+        simp only [Selection.spread.injEq] at he
+        obtain ⟨rfl, rfl⟩ := he
+        exact ⟨g, ⟨_, hs, Or.inl ⟨d, rfl⟩⟩, hp⟩
+      | inline on d sid ss =>
+        cases on with
+        | none => simp [t1, t0] at hx
+        | some c =>
+          simp only [t1] at hx
+          split at hx
+          · rename_i hi
+            obtain ⟨z, hz, hxz⟩ := List.mem_flatMap.mp hx
+            obtain ⟨g, d', rfl, hp⟩ := (h0 z).mp hxz
+            exact ⟨g, ⟨_, hs, Or.inr ⟨c, d, sid, ss, d', rfl, hi, hz⟩⟩, hp⟩
+          · cases hx
+  · rintro ⟨g, ⟨s, hs, h1 | h1⟩, hp⟩
+    · obtain ⟨d, rfl⟩ := h1
+      right
+      refine ⟨_, hs, ?_⟩
+      simp only [t1]
+      exact (h0 _).mpr ⟨g, d, rfl, hp⟩
+    · obtain ⟨c, d, sid, ss, d', rfl, hi, hm⟩ := h1
+      right
+      refine ⟨_, hs, ?_⟩
+      simp only [t1, hi, if_true]
+      exact List.mem_flatMap.mpr ⟨_, hm, (h0 _).mpr ⟨g, d', rfl, hp⟩⟩
 
 /-! ### annotations at a multi-variant position -/
 
@@ -450,27 +922,202 @@ theorem respOK_groups (S : Schema) (frags : List Fragment) (e : Nat) (rt : Strin
       && (Exec.collect S frags (e + 1) rt false sels []).all (groupOK S frags e rt kvs)) := by
   rfl
 
-theorem resp_facts (env : ResultTypes.Env) (frags : List Fragment) (M : List Nat) {cn tn : String} {rts : List String}
+/-- the collected entry of one field node, as the executor sees it -/
+theorem cs_facts (M : List Nat) (t : TNode) (h : isField t.2 = true) :
+    (collOf (sentOf M t)).key = keyOf t.2 ∧ (collOf (sentOf M t)).name = nameOf t.2 ∧
+    (collOf (sentOf M t)).conditional = hasConditionalDirective (dirsOf t.2) ∧
+    ((subOf t.2).isEmpty = true → (collOf (sentOf M t)).subs = []) := by
+  obtain ⟨o, y⟩ := t
+  cases y with
+  | spread g d => simp [isField] at h
+  | inline on d sid ss => simp [isField] at h
+  | field al n d sid sub =>
+    cases o with
+    | some o' =>
+      refine ⟨rfl, rfl, by simp [sentOf, collOf, isConditional_eq, dirsOf], fun he => ?_⟩
+      have : sub = [] := by simpa [subOf] using he
+      subst this; rfl
+    | none =>
+      refine ⟨by simp [sentOf, applySel_field, collOf, keyOf], by simp [sentOf, applySel_field, collOf, nameOf],
+        by simp [sentOf, applySel_field, collOf, dirsOf, isConditional_eq], fun he => ?_⟩
+      have : sub = [] := by simpa [subOf] using he
+      subst this
+      simp [sentOf, applySel_field, collOf, Marks.applySels]
+
+theorem eq_singleton_of_length_le_one {α : Type} {l : List α} {x : α} (h : l.length ≤ 1) (hx : x ∈ l) : l = [x] := by
+  cases l with
+  | nil => cases hx
+  | cons y ys =>
+    cases ys with
+    | nil => simp at hx; rw [hx]
+    | cons z zs => simp at h
+
+/-- what `dupOK` says -/
+theorem dupOK_spec {env : ResultTypes.Env} {l : List Selection} (h : dupOK env l = true) :
+    (∀ x ∈ l, l.filter (fun y => keyOf y == keyOf x) = [x] ∨
+      (∀ y ∈ l, keyOf y = keyOf x → plainLeaf y = true ∧ nameOf y = nameOf x)) ∧
+    (∀ x ∈ l, ∀ y ∈ l, pyFieldName env (keyOf x) = pyFieldName env (keyOf y) → keyOf x = keyOf y) ∧
+    (∀ x ∈ l, pyFieldName env (keyOf x) = keyOf x ∨ pyFieldName env (keyOf x) ∉ l.map keyOf) := by
+  simp only [dupOK, Bool.and_eq_true, List.all_eq_true, Bool.or_eq_true, decide_eq_true_eq, nodupB_iff, beq_iff_eq,
+    Bool.not_eq_true', List.contains_eq_mem, decide_eq_false_iff_not] at h
+  obtain ⟨⟨h1, h2⟩, h3⟩ := h
+  refine ⟨fun x hx => ?_, fun x hx y hy e => ?_, fun x hx => ?_⟩
+  · rcases h1 x hx with h | h
+    · exact Or.inl (eq_singleton_of_length_le_one h (List.mem_filter.mpr ⟨hx, by simp⟩))
+    · right
+      intro y hy hk
+      have := h y (List.mem_filter.mpr ⟨hy, by simp [hk]⟩)
+      simpa using this
+  · have hx' : keyOf x ∈ dedup (l.map keyOf) := (C01Fold.mem_dedup _ _).mpr (List.mem_map.mpr ⟨x, hx, rfl⟩)
+    have hy' : keyOf y ∈ dedup (l.map keyOf) := (C01Fold.mem_dedup _ _).mpr (List.mem_map.mpr ⟨y, hy, rfl⟩)
+    exact C01Mix.inj_of_nodup_map (pyFieldName env) _ h2 _ hx' _ hy' e
+  · have hx' : keyOf x ∈ dedup (l.map keyOf) := (C01Fold.mem_dedup _ _).mpr (List.mem_map.mpr ⟨x, hx, rfl⟩)
+    rcases h3 _ hx' with h | h
+    · exact Or.inl h
+    · exact Or.inr (fun hm => h ((C01Fold.mem_dedup _ _).mpr hm))
+
+theorem filter_map_comm {α β : Type} (f : α → β) (p : β → Bool) : ∀ l : List α, (l.map f).filter p = (l.filter (p ∘ f)).map f
+  | [] => rfl
+  | x :: xs => by
+    simp only [List.map_cons, List.filter_cons, Function.comp]
+    split
+    · simp [filter_map_comm f p xs]
+    · exact filter_map_comm f p xs
+
+/-- **what a conformant answer says about the field nodes of a class** (selections of the same response key are merged by the
+    executor: `g` is the merged entry of the node's key) -/
+theorem resp_facts (env : ResultTypes.Env) (K : Nat) (hfr : C01Mix.FragsOK env K) (M : List Nat) {cn tn : String}
+    {rts : List String}
     (rt : String) (hrt : rt ∈ rts) (a : Bool) (sel : List Selection)
-    (hloc : aSels env M.contains cn tn rts sel = true) (hkeys : ((rflat a env tn sel).map keyOf).Nodup)
-    (k : Nat) (kvs : List (String × J))
-    (hresp : Exec.respOK env.schema frags (k + 2) rt (sent a M sel) (.obj kvs) = true) :
-    (∀ p ∈ kvs, ∃ x ∈ rflat a env tn sel, keyOf x = p.1) ∧
-    (∀ x ∈ rflat a env tn sel, groupOK env.schema frags (k + 1) rt kvs (collOf (Marks.applySel M x)) = true) := by
-  rw [respOK_groups, collect_sent env frags k rt M hrt a sel hloc hkeys] at hresp
+    (hloc : aSels env M.contains cn tn rts sel = true) (hdup : dupOK env (cnodes a env tn sel) = true)
+    (k : Nat) (hKk : K ≤ k) (kvs : List (String × J))
+    (hresp : Exec.respOK env.schema env.frags (k + 2) rt (sent a M sel) (.obj kvs) = true) :
+    (∀ p ∈ kvs, ∃ t ∈ tnodes a env tn sel, keyOf t.2 = p.1) ∧
+    (∀ t ∈ tnodes a env tn sel, ∃ g : Exec.Collected, g.key = keyOf t.2 ∧ g.name = nameOf t.2 ∧
+      groupOK env.schema env.frags (k + 1) rt kvs g = true ∧
+      (g.conditional = true → ∀ t' ∈ tnodes a env tn sel, keyOf t'.2 = keyOf t.2 →
+        hasConditionalDirective (dirsOf t'.2) = true) ∧
+      (plainLeaf t.2 = true → g.subs = []) ∧
+      (plainLeaf t.2 = false → g = collOf (sentOf M t))) := by
+  rw [respOK_groups, collect_sent env K hfr k hKk rt M hrt a sel hloc, ← tnodes_sent] at hresp
   simp only [Bool.and_eq_true] at hresp
   obtain ⟨hr1, hr2⟩ := hresp
-  have hf := rflat_isField a hloc
+  have hTf := fun t ht => sentNodes_isField env K hfr M a hloc (sentOf M t)
+    (by rw [← tnodes_sent]; exact List.mem_map.mpr ⟨t, ht, rfl⟩)
+  have hTf' : ∀ t ∈ tnodes a env tn sel, isField t.2 = true := by
+    intro t ht
+    have := hTf t ht
+    obtain ⟨o, y⟩ := t
+    cases o with
+    | some o' => exact this
+    | none =>
+      cases y with
+      | field a' n d sid sub => rfl
+      | spread g d => simp [sentOf, Marks.applySel, isField] at this
+      | inline on d sid ss => simp [sentOf, Marks.applySel, isField] at this
+  obtain ⟨hD1, _, _⟩ := dupOK_spec hdup
+  obtain ⟨_, hF2, hF3⟩ := C01Fold.fold_spec (((tnodes a env tn sel).map (sentOf M)).map collOf) [] (by simp)
+  -- the entries of one key
+  have hfilter : ∀ κ : String, ((((tnodes a env tn sel).map (sentOf M)).map collOf).filter (·.key == κ)) =
+      (((tnodes a env tn sel).filter (fun t => keyOf t.2 == κ)).map (sentOf M)).map collOf := by
+    intro κ
+    rw [List.map_map, filter_map_comm, List.map_map]
+    congr 1
+    apply List.filter_congr
+    intro t ht
+    simp only [Function.comp, (cs_facts M t (hTf' t ht)).1]
   constructor
   · intro p hp
     have h1 := List.all_eq_true.mp hr1 p hp
-    obtain ⟨c, hc, he⟩ := List.any_eq_true.mp h1
-    obtain ⟨y', hy', rfl⟩ := List.mem_map.mp hc
-    obtain ⟨y, hy, rfl⟩ := List.mem_map.mp hy'
-    rw [collOf_key (isField_applySel M y (hf y hy)), keyOf_applySel M y (hf y hy)] at he
-    exact ⟨y, hy, by simpa using he⟩
-  · intro x hx
-    exact List.all_eq_true.mp hr2 _ (List.mem_map.mpr ⟨_, List.mem_map.mpr ⟨x, hx, rfl⟩, rfl⟩)
+    obtain ⟨g, hg, he⟩ := List.any_eq_true.mp h1
+    rcases hF2 g hg with ⟨a', ha', _⟩ | ⟨_, c, rest, hf, hge⟩
+    · cases ha'
+    · have hc : c ∈ (((tnodes a env tn sel).map (sentOf M)).map collOf).filter (·.key == g.key) := by rw [hf]; exact List.mem_cons_self
+      rw [hfilter] at hc
+      obtain ⟨y, hy, rfl⟩ := List.mem_map.mp hc
+      obtain ⟨t, ht, rfl⟩ := List.mem_map.mp hy
+      obtain ⟨htm, htk⟩ := List.mem_filter.mp ht
+      exact ⟨t, htm, by rw [(by simpa using htk : keyOf t.2 = g.key)]; simpa using he⟩
+  · intro t ht
+    obtain ⟨g, hg, hgk⟩ := hF3 (collOf (sentOf M t)) (by
+      simp only [List.nil_append]
+      exact List.mem_map.mpr ⟨_, List.mem_map.mpr ⟨t, ht, rfl⟩, rfl⟩)
+    rw [(cs_facts M t (hTf' t ht)).1] at hgk
+    rcases hF2 g hg with ⟨a', ha', _⟩ | ⟨_, c, rest, hf, hge⟩
+    · cases ha'
+    · rw [hgk, hfilter] at hf
+      obtain ⟨hmk, hmn, hms, hmc⟩ := C01Fold.mergeC_key c rest
+      -- all entries of the key
+      have hall : ∀ x ∈ c :: rest, ∃ t' ∈ tnodes a env tn sel, keyOf t'.2 = keyOf t.2 ∧ x = collOf (sentOf M t') := by
+        intro x hx
+        rw [← hf] at hx
+        obtain ⟨y, hy, rfl⟩ := List.mem_map.mp hx
+        obtain ⟨t', ht', rfl⟩ := List.mem_map.mp hy
+        obtain ⟨h1, h2⟩ := List.mem_filter.mp ht'
+        exact ⟨t', h1, by simpa using h2, rfl⟩
+      have hmem : ∀ t' ∈ tnodes a env tn sel, keyOf t'.2 = keyOf t.2 → collOf (sentOf M t') ∈ c :: rest := by
+        intro t' ht' hk'
+        rw [← hf]
+        exact List.mem_map.mpr ⟨_, List.mem_map.mpr ⟨t', List.mem_filter.mpr ⟨ht', by simp [hk']⟩, rfl⟩, rfl⟩
+      have htc : t.2 ∈ cnodes a env tn sel := by rw [← tnodes_snd]; exact List.mem_map.mpr ⟨t, ht, rfl⟩
+      have hD := hD1 t.2 htc
+      refine ⟨g, hgk, ?_, List.all_eq_true.mp hr2 g hg, ?_, ?_, ?_⟩
+      · -- the name
+        rw [hge, hmn]
+        obtain ⟨t', ht', hk', rfl⟩ := hall c List.mem_cons_self
+        rw [(cs_facts M t' (hTf' t' ht')).2.1]
+        rcases hD with hu | hs
+        · -- unique: `t'` is `t`
+          have h1 : t'.2 ∈ (cnodes a env tn sel).filter (fun y => keyOf y == keyOf t.2) :=
+            List.mem_filter.mpr ⟨by rw [← tnodes_snd]; exact List.mem_map.mpr ⟨t', ht', rfl⟩, by simp [hk']⟩
+          rw [hu] at h1
+          rw [List.mem_singleton.mp h1]
+        · exact (hs t'.2 (by rw [← tnodes_snd]; exact List.mem_map.mpr ⟨t', ht', rfl⟩) hk').2
+      · -- conditional
+        intro hc t' ht' hk'
+        rw [hge, hmc, Bool.and_eq_true, List.all_eq_true] at hc
+        have := hmem t' ht' hk'
+        rw [← (cs_facts M t' (hTf' t' ht')).2.2.1]
+        rcases List.mem_cons.mp this with h1 | h1
+        · rw [h1]; exact hc.1
+        · exact hc.2 _ h1
+      · -- a shared key: leaves only
+        intro hpl
+        rw [hge, hms]
+        have hsubs : ∀ x ∈ c :: rest, x.subs = [] := by
+          intro x hx
+          obtain ⟨t', ht', hk', rfl⟩ := hall x hx
+          have hpl' : plainLeaf t'.2 = true := by
+            rcases hD with hu | hs
+            · have h1 : t'.2 ∈ (cnodes a env tn sel).filter (fun y => keyOf y == keyOf t.2) :=
+                List.mem_filter.mpr ⟨by rw [← tnodes_snd]; exact List.mem_map.mpr ⟨t', ht', rfl⟩, by simp [hk']⟩
+              rw [hu] at h1
+              rw [List.mem_singleton.mp h1]; exact hpl
+            · exact (hs t'.2 (by rw [← tnodes_snd]; exact List.mem_map.mpr ⟨t', ht', rfl⟩) hk').1
+          simp only [plainLeaf, Bool.and_eq_true] at hpl'
+          exact (cs_facts M t' (hTf' t' ht')).2.2.2 hpl'.1
+        rw [hsubs c List.mem_cons_self]
+        simp only [List.nil_append, List.flatMap_eq_nil_iff]
+        exact fun x hx => hsubs x (List.mem_cons_of_mem _ hx)
+      · -- a composite field or `__typename` owns its key
+        intro hpl
+        rcases hD with hu | hs
+        · have hfil : (tnodes a env tn sel).filter (fun t' => keyOf t'.2 == keyOf t.2) = [t] := by
+            have hlen : ((tnodes a env tn sel).filter (fun t' => keyOf t'.2 == keyOf t.2)).length ≤ 1 := by
+              have : ((tnodes a env tn sel).filter (fun t' => keyOf t'.2 == keyOf t.2)).map (·.2) =
+                  (cnodes a env tn sel).filter (fun y => keyOf y == keyOf t.2) := by
+                rw [← tnodes_snd, filter_map_comm]; rfl
+              have hl := congrArg List.length this
+              rw [hu] at hl
+              simp at hl
+              omega
+            exact eq_singleton_of_length_le_one hlen (List.mem_filter.mpr ⟨ht, by simp⟩)
+          rw [hfil] at hf
+          simp only [List.map_cons, List.map_nil, List.cons.injEq] at hf
+          rw [hge, ← hf.1, ← hf.2]
+          simp [C01Fold.mergeC]
+        · have := (hs t.2 htc rfl).1
+          rw [hpl] at this; cases this
 
 /-- a class generated with `add_typename` has a `__typename` field node (automatic or explicit), un-aliased and
     unconditional -/
@@ -499,14 +1146,19 @@ theorem exists_tn {env : ResultTypes.Env} {mk : Nat → Bool} {cn tn : String} {
       exact List.mem_flatMap.mpr ⟨_, hx, by simp [flat1]⟩
 
 /-- the answer carries the runtime type under `__typename` -/
-theorem resp_typename (env : ResultTypes.Env) (frags : List Fragment) (M : List Nat) {cn tn : String} {rts : List String}
+theorem resp_typename (env : ResultTypes.Env) (K : Nat) (hfr : C01Mix.FragsOK env K) (M : List Nat) {cn tn : String}
+    {rts : List String}
     (rt : String) (hrt : rt ∈ rts) (sel : List Selection)
-    (hloc : aSels env M.contains cn tn rts sel = true) (hkeys : ((rflat true env tn sel).map keyOf).Nodup)
-    (k : Nat) (kvs : List (String × J))
-    (hresp : Exec.respOK env.schema frags (k + 2) rt (sent true M sel) (.obj kvs) = true) :
+    (hloc : aSels env M.contains cn tn rts sel = true) (hkeys : dupOK env (cnodes true env tn sel) = true)
+    (k : Nat) (hKk : K ≤ k) (kvs : List (String × J))
+    (hresp : Exec.respOK env.schema env.frags (k + 2) rt (sent true M sel) (.obj kvs) = true) :
     J.lookup typenameField kvs = some (.str rt) := by
   obtain ⟨dirs, sid, sub0, hx, hc⟩ := exists_tn hloc
-  have := (resp_facts env frags M rt hrt true sel hloc hkeys k kvs hresp).2 _ hx
+  obtain ⟨g, _, _, hgok, _, _, hgu⟩ := (resp_facts env K hfr M rt hrt true sel hloc hkeys k hKk kvs hresp).2 _
+    ((tnodes_own _ _ _ _ _).mpr hx)
+  have this := hgok
+  rw [hgu (by simp [plainLeaf, nameOf])] at this
+  simp only [sentOf] at this
   rw [applySel_field] at this
   simp only [groupOK, collOf, Option.getD_none, isConditional_eq, hc, Bool.or_false] at this
   cases hl : J.lookup typenameField kvs with
@@ -570,17 +1222,28 @@ theorem taggedWith_variant (penv : Pyd.Env) (rec : Ann → J → Except VErr PV)
       simp only [hc] at hfind ⊢
       exact ih' hfind
 
-def ValSpec (env : ResultTypes.Env) (penv : Pyd.Env) (frags : List Fragment) (M : List Nat) (ef : Nat) : Prop :=
+/-- the global hypotheses of part (2): the fragment definitions are fit to be mixins (`FragsOK`), the pydantic environment
+    agrees with the schema on enums, has no class `BaseModel`, knows the classes of every fragment definition, its inheritance
+    fuel covers the nesting of fragments, and `F` bounds the validation fuel any fragment class needs -/
+structure GH (env : ResultTypes.Env) (penv : Pyd.Env) (K F : Nat) : Prop where
+  hfr : C01Mix.FragsOK env K
+  ha : ResultLeaf.EnvAgrees env penv
+  hbm : penv.class? "BaseModel" = none
+  frags : C01Mix.FragsIn env penv
+  depth : C01Mix.fragDepth env + 1 ≤ penv.clsFuel
+  need : ∀ f ∈ env.frags, C01Mix.mneed env K f.on f.sel + 1 ≤ F
+
+def ValSpec (env : ResultTypes.Env) (penv : Pyd.Env) (M : List Nat) (K F : Nat) (ef : Nat) : Prop :=
   ∀ (cn tn rt : String) (rts : List String) (sel : List Selection) (tv : List String) (a : Bool) (j : J),
     rt ∈ rts → classHead env tn rts tv a sel = true → aSels env M.contains cn tn rts sel = true →
     (∀ c ∈ aClass env cn tn tv a sel, penv.class? c.name = some c) →
-    agfuel sel ≤ ef →
-    Exec.respOK env.schema frags ef rt (sent a M sel) j = true → nodupKeys j = true →
-    ∀ vfuel, avneed env cn tn sel + 4 ≤ vfuel → RT (validate penv vfuel (.cls cn) j) j
+    agfuel sel + K ≤ ef →
+    Exec.respOK env.schema env.frags ef rt (sent a M sel) j = true → nodupKeys j = true →
+    ∀ vfuel, avneed env cn tn sel + 4 + F ≤ vfuel → RT (validate penv vfuel (.cls cn) j) j
 
 theorem classHead_spec {env : ResultTypes.Env} {tn : String} {rts tv : List String} {a : Bool} {sel : List Selection}
     (h : classHead env tn rts tv a sel = true) :
-    setOK env (rflat a env tn sel) = true ∧
+    dupOK env (cnodes a env tn sel) = true ∧
     ((rflat a env tn sel).any isTnSel = true →
       (tv.isEmpty = true → rootTnOK env tn = true) ∧ (tv.isEmpty = false → ∀ rt ∈ rts, rt ∈ tv)) := by
   simp only [classHead, Bool.and_eq_true, Bool.or_eq_true, Bool.not_eq_true'] at h
@@ -593,31 +1256,526 @@ theorem classHead_spec {env : ResultTypes.Env} {tn : String} {rts tv : List Stri
       simp only [hte, Bool.false_eq_true, if_false, List.all_eq_true] at h2
       simpa using h2 rt hrt
 
-/-- the head class of `aClass`, as pydantic sees it -/
-theorem class_fields (env : ResultTypes.Env) (penv : Pyd.Env) (hbm : penv.class? "BaseModel" = none)
+/-! ### the fields of a class with mixin bases, as pydantic sees them -/
+
+theorem filter_sublist_c0 (env : ResultTypes.Env) : ∀ ss : List Selection, (ss.filter isField).Sublist (ss.flatMap (c0 env))
+  | [] => List.Sublist.slnil
+  | z :: rest => by
+    have ih := filter_sublist_c0 env rest
+    cases z with
+    | field a n d sid sub =>
+      simp only [List.filter_cons, isField, if_true, List.flatMap_cons, c0, List.singleton_append]
+      exact List.Sublist.cons_cons _ ih
+    | spread g d =>
+      simp only [List.filter_cons, isField, Bool.false_eq_true, if_false, List.flatMap_cons]
+      exact ih.trans (List.sublist_append_right _ _)
+    | inline on d sid ss' =>
+      simp only [List.filter_cons, isField, Bool.false_eq_true, if_false, List.flatMap_cons, c0, List.nil_append]
+      exact ih
+
+theorem flat1_sublist_c1 (env : ResultTypes.Env) (tn : String) (s : Selection) : (flat1 env tn s).Sublist (c1 env tn s) := by
+  cases s with
+  | field a n d sid sub => simp [flat1, c1, c0]
+  | spread g d => simp [flat1]
+  | inline on d sid ss =>
+    cases on with
+    | none => simp [flat1]
+    | some c =>
+      simp only [flat1, c1]
+      split
+      · exact filter_sublist_c0 env ss
+      · exact List.Sublist.slnil
+
+theorem flatMap_sublist {α β : Type} (f g : α → List β) (h : ∀ a, (f a).Sublist (g a)) : ∀ l : List α,
+    (l.flatMap f).Sublist (l.flatMap g)
+  | [] => List.Sublist.slnil
+  | a :: l => by
+    simp only [List.flatMap_cons]
+    exact List.Sublist.append (h a) (flatMap_sublist f g h l)
+
+/-- the own field nodes are among all field nodes, in order -/
+theorem rflat_sublist (a : Bool) (env : ResultTypes.Env) (tn : String) (sel : List Selection) :
+    (rflat a env tn sel).Sublist (cnodes a env tn sel) := by
+  unfold rflat cnodes flatG
+  exact List.Sublist.append (List.Sublist.refl _) (flatMap_sublist _ _ (flat1_sublist_c1 env tn) sel)
+
+theorem nodup_map_of_inj {α β : Type} (g : α → β) : ∀ l : List α, l.Nodup →
+    (∀ a ∈ l, ∀ b ∈ l, g a = g b → a = b) → (l.map g).Nodup
+  | [], _, _ => List.nodup_nil
+  | x :: xs, h, hinj => by
+    simp only [List.nodup_cons] at h
+    simp only [List.map_cons, List.nodup_cons]
+    refine ⟨?_, nodup_map_of_inj g xs h.2 (fun a ha b hb => hinj a (List.mem_cons_of_mem _ ha) b (List.mem_cons_of_mem _ hb))⟩
+    intro hm
+    obtain ⟨y, hy, he⟩ := List.mem_map.mp hm
+    have := hinj y (List.mem_cons_of_mem _ hy) x List.mem_cons_self he
+    exact h.1 (this ▸ hy)
+
+def dummyDecl : FieldDecl := { py := "", ann := .name "", alias := none, discriminator := false, defaultNone := false }
+
+/-- the declaration of a tagged node in the class `cn` on `tn` -/
+def declOf (env : ResultTypes.Env) (cn tn : String) (tv : List String) : TNode → FieldDecl
+  | (none, .field al n d _ sub) => aDecl env cn tn tv al n d sub
+  | (some o, .field al n d _ sub) => fieldDecl env o tn al n d sub
+  | _ => dummyDecl
+
+theorem declOf_py (env : ResultTypes.Env) (cn tn : String) (tv : List String) (t : TNode) (h : isField t.2 = true) :
+    (declOf env cn tn tv t).py = pyFieldName env (keyOf t.2) := by
+  obtain ⟨o, y⟩ := t
+  cases y with
+  | spread g d => simp [isField] at h
+  | inline on d sid ss => simp [isField] at h
+  | field al n d sid sub =>
+    cases o with
+    | none => simp only [declOf, aDecl_py, keyOf]
+    | some o' => rfl
+
+theorem declOf_key (env : ResultTypes.Env) (cn tn : String) (tv : List String) (t : TNode) (h : isField t.2 = true) :
+    (declOf env cn tn tv t).alias.getD (declOf env cn tn tv t).py = keyOf t.2 := by
+  obtain ⟨o, y⟩ := t
+  cases y with
+  | spread g d => simp [isField] at h
+  | inline on d sid ss => simp [isField] at h
+  | field al n d sid sub =>
+    cases o with
+    | none => simp only [declOf, aDecl_key, keyOf]
+    | some o' => simp only [declOf, fieldDecl_key, keyOf]
+
+theorem tnodes_isField (env : ResultTypes.Env) (K : Nat) (hfr : C01Mix.FragsOK env K) {mk : Nat → Bool}
+    {cn tn : String} {rts : List String} {sel : List Selection} (a : Bool)
+    (h : aSels env mk cn tn rts sel = true) : ∀ t ∈ tnodes a env tn sel, isField t.2 = true := by
+  intro t ht
+  obtain ⟨o, y⟩ := t
+  cases o with
+  | none => exact rflat_isField a h y ((tnodes_own _ _ _ _ _).mp ht)
+  | some o' =>
+    obtain ⟨g, hocc, hp⟩ := (tnodes_inh _ _ _ _ _ _).mp ht
+    obtain ⟨_, _, f, hf, _⟩ := occurs_spec h hocc
+    exact ((inhOf_spec env K hfr hf).2 _ hp).1
+
+theorem mem_aBases {env : ResultTypes.Env} {tn : String} {sel : List Selection} {b : String} (h : b ∈ aBases env tn sel) :
+    b = "BaseModel" ∨ ∃ g ∈ gSpreads env tn sel, b = pascal g := by
+  unfold aBases at h
+  split at h
+  · left; simpa using h
+  · right
+    obtain ⟨g, hg, rfl⟩ := List.mem_map.mp h
+    exact ⟨g, (C01Mix.mem_sortStr' g _).mp hg, rfl⟩
+
+theorem pascal_mem_aBases {env : ResultTypes.Env} {tn : String} {sel : List Selection} {g : String}
+    (h : g ∈ gSpreads env tn sel) : pascal g ∈ aBases env tn sel := by
+  unfold aBases
+  have hne : (gSpreads env tn sel).isEmpty = false := by
+    cases hs : gSpreads env tn sel with
+    | nil => rw [hs] at h; cases h
+    | cons x xs => rfl
+  simp only [hne, Bool.false_eq_true, if_false]
+  exact List.mem_map.mpr ⟨g, (C01Mix.mem_sortStr' g _).mpr h, rfl⟩
+
+theorem mem_decls_own {env : ResultTypes.Env} {cn tn : String} {tv : List String} {a : Bool} {sel : List Selection} {d : FieldDecl}
+    (h : d ∈ (rflat a env tn sel).flatMap (aDecl1 env cn tn tv)) :
+    ∃ t ∈ tnodes a env tn sel, isField t.2 = true ∧ d = declOf env cn tn tv t := by
+  obtain ⟨x, hx, hd⟩ := List.mem_flatMap.mp h
+  cases x with
+  | field alias name dirs sid sub =>
+    simp only [aDecl1, List.mem_singleton] at hd
+    exact ⟨(none, .field alias name dirs sid sub), (tnodes_own _ _ _ _ _).mpr hx, rfl, hd⟩
+  | spread n d' => simp [aDecl1] at hd
+  | inline on d' sid sub => simp [aDecl1] at hd
+
+/-- the declaration of a plain leaf node: the same for an own and an inherited node -/
+theorem declOf_plainLeaf (env : ResultTypes.Env) (cn tn : String) (tv : List String) (t : TNode) (hf : isField t.2 = true)
+    (hpl : plainLeaf t.2 = true) :
+    declOf env cn tn tv t =
+      { py := pyFieldName env (keyOf t.2),
+        ann := condAnn (wrapAnn (ResultLeaf.leafBase env (fieldT env tn (nameOf t.2)).base) true (fieldT env tn (nameOf t.2))) (dirsOf t.2),
+        alias := if pyFieldName env (keyOf t.2) != keyOf t.2 then some (keyOf t.2) else none,
+        discriminator := false, defaultNone := hasConditionalDirective (dirsOf t.2) } := by
+  obtain ⟨o, y⟩ := t
+  cases y with
+  | spread g d => simp [isField] at hf
+  | inline on d sid ss => simp [isField] at hf
+  | field al n d sid sub =>
+    simp only [plainLeaf, subOf, nameOf, Bool.and_eq_true, bne_iff_ne, ne_eq] at hpl
+    obtain ⟨hsub, hn⟩ := hpl
+    have hn' : (n == typenameField) = false := by simpa using hn
+    cases o with
+    | none =>
+      simp only [declOf, aDecl, hn', hsub, if_true, Bool.false_and, Bool.false_eq_true, if_false, aDecl_leaf_ann, keyOf, nameOf, dirsOf]
+      rw [isUnionAnn_condAnn _ _ (isUnionAnn_wrapAnn _ (by rw [ResultLeaf.leafBase_eq]; exact Or.inl ⟨_, rfl⟩) _ _)]
+      rfl
+    | some o' =>
+      simp only [declOf, fieldDecl, hsub, if_true, keyOf, nameOf, dirsOf]
+      rfl
+
+theorem py_mstep_foldl (p : String) : ∀ (bfs : List (List FieldDecl)) (acc : List FieldDecl),
+    ((∃ d ∈ acc, d.py = p) ∨ ∃ bf ∈ bfs, ∃ d ∈ bf, d.py = p) → ∃ d ∈ bfs.foldl C01Mix.mstep acc, d.py = p
+  | [], acc, h => by
+    rcases h with h | ⟨bf, hb, _⟩
+    · exact h
+    · cases hb
+  | bf :: rest, acc, h => by
+    rw [List.foldl_cons]
+    apply py_mstep_foldl p rest
+    rcases h with ⟨d, hd, hp⟩ | ⟨bf', hb, d, hd, hp⟩
+    · by_cases hc : (bf.any (·.py == d.py)) = true
+      · obtain ⟨d', hd', he⟩ := List.any_eq_true.mp hc
+        exact Or.inl ⟨d', List.mem_append_right _ hd', by rw [← hp]; simpa using he⟩
+      · exact Or.inl ⟨d, List.mem_append_left _ (List.mem_filter.mpr ⟨hd, by simpa using hc⟩), hp⟩
+    · rcases List.mem_cons.mp hb with rfl | hb
+      · exact Or.inl ⟨d, List.mem_append_right _ hd, hp⟩
+      · exact Or.inr ⟨bf', hb, d, hd, hp⟩
+
+theorem length_filter_sublist {α : Type} {l l' : List α} (h : l.Sublist l') (p : α → Bool) :
+    (l.filter p).length ≤ (l'.filter p).length := (h.filter p).length_le
+
+/-- the nodes sharing the key of `t` -/
+theorem tnodes_filter_snd (a : Bool) (env : ResultTypes.Env) (tn : String) (sel : List Selection) (κ : String) :
+    ((tnodes a env tn sel).filter (fun t => keyOf t.2 == κ)).map (·.2) = (cnodes a env tn sel).filter (fun y => keyOf y == κ) := by
+  rw [← tnodes_snd, filter_map_comm]; rfl
+
+/-- a node that owns its key is the only tagged node with that key -/
+theorem unique_tnode {a : Bool} {env : ResultTypes.Env} {tn : String} {sel : List Selection} {t t' : TNode}
+    (hu : (cnodes a env tn sel).filter (fun y => keyOf y == keyOf t.2) = [t.2])
+    (ht : t ∈ tnodes a env tn sel) (ht' : t' ∈ tnodes a env tn sel) (hk : keyOf t'.2 = keyOf t.2) : t' = t := by
+  have hlen : ((tnodes a env tn sel).filter (fun x => keyOf x.2 == keyOf t.2)).length ≤ 1 := by
+    have hl := congrArg List.length (tnodes_filter_snd a env tn sel (keyOf t.2))
+    rw [hu] at hl
+    simp at hl
+    omega
+  have h1 := eq_singleton_of_length_le_one hlen (List.mem_filter.mpr ⟨ht, by simp⟩)
+  have h2 : t' ∈ (tnodes a env tn sel).filter (fun x => keyOf x.2 == keyOf t.2) := List.mem_filter.mpr ⟨ht', by simp [hk]⟩
+  rw [h1] at h2
+  exact List.mem_singleton.mp h2
+
+/-- what a declaration of the class says about the field nodes of one response key -/
+def DeclFor (env : ResultTypes.Env) (cn tn : String) (tv : List String) (T : List TNode) (d : FieldDecl) (t : TNode) : Prop :=
+  isField t.2 = true ∧ d.py = pyFieldName env (keyOf t.2) ∧
+  ((plainLeaf t.2 = false ∧ d = declOf env cn tn tv t) ∨
+   (plainLeaf t.2 = true ∧
+    d.alias = (if pyFieldName env (keyOf t.2) != keyOf t.2 then some (keyOf t.2) else none) ∧
+    d.discriminator = false ∧
+    (∃ t' ∈ T, keyOf t'.2 = keyOf t.2 ∧ d.ann = (declOf env cn tn tv t').ann) ∧
+    (d.defaultNone = false → ∃ t' ∈ T, keyOf t'.2 = keyOf t.2 ∧ hasConditionalDirective (dirsOf t'.2) = false)))
+
+/-- the declaration of a node, as it stands in the list that declares it -/
+theorem declFor_self (env : ResultTypes.Env) (cn tn : String) (tv : List String) (T : List TNode) (t : TNode) (ht : t ∈ T)
+    (hf : isField t.2 = true) : DeclFor env cn tn tv T (declOf env cn tn tv t) t := by
+  refine ⟨hf, declOf_py env cn tn tv t hf, ?_⟩
+  cases hpl : plainLeaf t.2 with
+  | false => exact Or.inl ⟨rfl, rfl⟩
+  | true =>
+    right
+    rw [declOf_plainLeaf env cn tn tv t hf hpl]
+    exact ⟨rfl, rfl, rfl, ⟨t, ht, rfl, by rw [declOf_plainLeaf env cn tn tv t hf hpl]⟩, fun h => ⟨t, ht, rfl, h⟩⟩
+
+/-- **the fields pydantic sees for a class of the tier**: one declaration per response key — the declaration of the node that owns
+    the key, or, for a key reached by several leaf selections, the merge Python / pydantic make of their declarations -/
+theorem class_members (env : ResultTypes.Env) (penv : Pyd.Env) (K F : Nat) (G : GH env penv K F)
     {mk : Nat → Bool} (cn tn : String) (rts tv : List String) (a : Bool) (sel : List Selection)
-    (hloc : aSels env mk cn tn rts sel = true) (hset : setOK env (rflat a env tn sel) = true)
-    (hc : penv.class? cn = some { name := cn, bases := ["BaseModel"], fields := (rflat a env tn sel).flatMap (aDecl1 env cn tn tv) }) :
-    allFields penv penv.clsFuel cn = (rflat a env tn sel).flatMap (aDecl1 env cn tn tv) ∧
-    (((rflat a env tn sel).flatMap (aDecl1 env cn tn tv)).map (·.py)).Nodup := by
-  have hpys := (setOK_spec hset).2.1
-  have hnd : (((rflat a env tn sel).flatMap (aDecl1 env cn tn tv)).map (·.py)).Nodup := by
-    rw [decls_map env cn tn tv (·.py) (pyFieldName env) (fun al n d s => aDecl_py env cn tn tv al n d s) _ (rflat_isField a hloc)]
-    exact hpys
-  exact ⟨allFields_plain penv ⟨cn, ["BaseModel"], _⟩ hc rfl hbm hnd penv.classes.length, hnd⟩
+    (hloc : aSels env mk cn tn rts sel = true) (hset : dupOK env (cnodes a env tn sel) = true)
+    (hc : penv.class? cn = some { name := cn, bases := aBases env tn sel, fields := (rflat a env tn sel).flatMap (aDecl1 env cn tn tv) }) :
+    ((allFields penv penv.clsFuel cn).map (·.py)).Nodup ∧
+    (∀ d ∈ allFields penv penv.clsFuel cn, ∃ t ∈ tnodes a env tn sel, DeclFor env cn tn tv (tnodes a env tn sel) d t) ∧
+    (∀ t ∈ tnodes a env tn sel, ∃ d ∈ allFields penv penv.clsFuel cn, d.py = pyFieldName env (keyOf t.2)) ∧
+    (∀ t ∈ tnodes a env tn sel, plainLeaf t.2 = false → declOf env cn tn tv t ∈ allFields penv penv.clsFuel cn) := by
+  have hTf := tnodes_isField env K G.hfr a hloc
+  obtain ⟨hD1, hD2, _⟩ := dupOK_spec hset
+  have hcn : ∀ t ∈ tnodes a env tn sel, t.2 ∈ cnodes a env tn sel :=
+    fun t ht => by rw [← tnodes_snd]; exact List.mem_map.mpr ⟨t, ht, rfl⟩
+  have hfuel : penv.clsFuel = penv.classes.length + 1 := rfl
+  have hdepth : C01Mix.fragDepth env ≤ penv.classes.length := by have := G.depth; omega
+  rw [hfuel, C01Mix.allFields_succ penv penv.classes.length cn _ hc]
+  simp only []
+  -- the own declarations are those of the own nodes
+  have hownT : ∀ d ∈ (rflat a env tn sel).flatMap (aDecl1 env cn tn tv), ∃ t ∈ tnodes a env tn sel,
+      t.1 = none ∧ isField t.2 = true ∧ d = declOf env cn tn tv t := by
+    intro d hd
+    obtain ⟨x, hx, hdx⟩ := List.mem_flatMap.mp hd
+    cases x with
+    | field alias name dirs sid sub =>
+      simp only [aDecl1, List.mem_singleton] at hdx
+      exact ⟨(none, .field alias name dirs sid sub), (tnodes_own _ _ _ _ _).mpr hx, rfl, rfl, hdx⟩
+    | spread n d' => simp [aDecl1] at hdx
+    | inline on d' sid sub => simp [aDecl1] at hdx
+  -- facts about one spread fragment (through `allFields_mix` of the mixin tier)
+  have hfrag : ∀ g, occurs env tn sel g → ∃ f, findFragment? env.frags g = some f ∧ f.on = tn ∧ f.name = g ∧
+      inhOf env (C01Mix.fragDepth env) g = C01Mix.mflat env (C01Mix.fragDepth env) (pascal f.name) f.sel ∧
+      (∀ d ∈ allFields penv penv.classes.length (pascal f.name), ∃ o al n dirs sid sub,
+        (o, Selection.field al n dirs sid sub) ∈ C01Mix.mflat env (C01Mix.fragDepth env) (pascal f.name) f.sel ∧
+        d = fieldDecl env o f.on al n dirs sub) ∧
+      ((allFields penv penv.classes.length (pascal f.name)).map (·.py)).Nodup ∧
+      (∀ o al n dirs sid sub, (o, Selection.field al n dirs sid sub) ∈ C01Mix.mflat env (C01Mix.fragDepth env) (pascal f.name) f.sel →
+        fieldDecl env o f.on al n dirs sub ∈ allFields penv penv.classes.length (pascal f.name)) := by
+    intro g hocc
+    obtain ⟨_, _, f, hf, hon⟩ := occurs_spec hloc hocc
+    obtain ⟨hfm, hfn⟩ := C01Mix.find_mem hf
+    obtain ⟨_, _, hmset, hlocf, _, hfullS⟩ := C01Mix.fragOK_spec (G.hfr f hfm)
+    have hinh : inhOf env (C01Mix.fragDepth env) g = C01Mix.mflat env (C01Mix.fragDepth env) (pascal f.name) f.sel := by
+      simp [inhOf, hf]
+    -- within ONE fragment the Python names are distinct (`msetOK` of the mixin tier)
+    have hndf : ((C01Mix.mflat env (C01Mix.fragDepth env) (pascal f.name) f.sel).map (C01Mix.pyKey env)).Nodup := by
+      unfold C01Mix.msetOK at hmset
+      have hk := (setOK_spec hmset).2.1
+      rw [(inhOf_spec env K G.hfr hf).1 K (Nat.le_refl K), hinh, List.map_map, List.map_map] at hk
+      exact hk
+    obtain ⟨h1, h2, h3⟩ := C01Mix.allFields_mix env penv K G.hfr (C01Mix.fragClassesIn_of env penv G.frags) G.hbm
+      (C01Mix.fragDepth env) (pascal f.name) f.on f.sel hfullS hlocf
+      (C01Mix.fragClassesIn_of env penv G.frags f hfm) hndf penv.classes.length hdepth
+    exact ⟨f, hf, hon, hfn, hinh, h1, h2, h3⟩
+  -- every declaration of every merged list is "for" a tagged node
+  have hbase : ∀ b ∈ aBases env tn sel,
+      (∀ d ∈ allFields penv penv.classes.length b, ∃ t ∈ tnodes a env tn sel, DeclFor env cn tn tv (tnodes a env tn sel) d t) ∧
+      ((allFields penv penv.classes.length b).map (·.py)).Nodup := by
+    intro b hb
+    rcases mem_aBases hb with rfl | ⟨g, hg, rfl⟩
+    · rw [allFields_none penv "BaseModel" G.hbm]
+      exact ⟨fun d hd => (by cases hd), by simp⟩
+    · have hocc := (mem_gSpreads env tn sel g).mp hg
+      obtain ⟨f, hf, hon, hfn, hinh, h1, h2, _⟩ := hfrag g hocc
+      rw [← hfn]
+      refine ⟨fun d' hd' => ?_, h2⟩
+      obtain ⟨o, al, n, dirs, sid, sub, hm, he⟩ := h1 d' hd'
+      rw [← hinh] at hm
+      have ht : (some o, Selection.field al n dirs sid sub) ∈ tnodes a env tn sel := (tnodes_inh _ _ _ _ _ _).mpr ⟨g, hocc, hm⟩
+      refine ⟨_, ht, ?_⟩
+      have : d' = declOf env cn tn tv (some o, Selection.field al n dirs sid sub) := by rw [he, hon]; rfl
+      rw [this]
+      exact declFor_self env cn tn tv _ _ ht rfl
+  have hown : ∀ d ∈ mergeDup ((rflat a env tn sel).flatMap (aDecl1 env cn tn tv)),
+      ∃ t ∈ tnodes a env tn sel, DeclFor env cn tn tv (tnodes a env tn sel) d t := by
+    intro d hd
+    obtain ⟨_, hM2, _⟩ := C01Fold.mergeDup_spec ((rflat a env tn sel).flatMap (aDecl1 env cn tn tv))
+    obtain ⟨c, rest, hfil, hde⟩ := hM2 d hd
+    -- every declaration of the name is the declaration of an own node with the key of the first one
+    have hcm : c ∈ (rflat a env tn sel).flatMap (aDecl1 env cn tn tv) :=
+      (List.mem_filter.mp (by rw [hfil]; exact List.mem_cons_self)).1
+    obtain ⟨tc, htc, htcn, htcf, rfl⟩ := hownT c hcm
+    have hdpy : d.py = pyFieldName env (keyOf tc.2) := by
+      rw [hde, C01Fold.mergeD_py, declOf_py _ _ _ _ _ htcf]
+    have hall : ∀ g ∈ declOf env cn tn tv tc :: rest, ∃ t ∈ tnodes a env tn sel, t.1 = none ∧ isField t.2 = true ∧
+        keyOf t.2 = keyOf tc.2 ∧ g = declOf env cn tn tv t := by
+      intro g hg
+      rw [← hfil] at hg
+      obtain ⟨hgm, hgp⟩ := List.mem_filter.mp hg
+      obtain ⟨t, ht, htn, htf, rfl⟩ := hownT g hgm
+      refine ⟨t, ht, htn, htf, ?_, rfl⟩
+      have : pyFieldName env (keyOf t.2) = pyFieldName env (keyOf tc.2) := by
+        have := (by simpa using hgp : (declOf env cn tn tv t).py = d.py)
+        rw [declOf_py _ _ _ _ _ htf, hdpy] at this
+        exact this
+      exact hD2 _ (hcn t ht) _ (hcn tc htc) this
+    refine ⟨tc, htc, htcf, hdpy, ?_⟩
+    cases hpl : plainLeaf tc.2 with
+    | false =>
+      left
+      refine ⟨rfl, ?_⟩
+      -- the node owns its key: no later declaration of the name
+      have hu : (cnodes a env tn sel).filter (fun y => keyOf y == keyOf tc.2) = [tc.2] := by
+        rcases hD1 tc.2 (hcn tc htc) with h | h
+        · exact h
+        · have := (h tc.2 (hcn tc htc) rfl).1
+          rw [hpl] at this; cases this
+      have hrest : rest = [] := by
+        -- own declarations of the name ≤ own nodes of the key ≤ all nodes of the key = 1
+        have h1 : ∀ L : List Selection, (∀ x ∈ L, isField x = true) →
+            ((L.flatMap (aDecl1 env cn tn tv)).filter (·.py == d.py)).length ≤
+              (L.filter (fun x => pyFieldName env (keyOf x) == d.py)).length := by
+          intro L hL
+          induction L with
+          | nil => simp
+          | cons x xs ih =>
+            have hxf := hL x List.mem_cons_self
+            have ih' := ih (fun y hy => hL y (List.mem_cons_of_mem _ hy))
+            cases x with
+            | spread g d' => simp [isField] at hxf
+            | inline on d' sid ss => simp [isField] at hxf
+            | field al n d' sid sub =>
+              have e1 : ((aDecl env cn tn tv al n d' sub).py == d.py) = (pyFieldName env (al.getD n) == d.py) := by rw [aDecl_py]
+              have e2 : (pyFieldName env (keyOf (Selection.field al n d' sid sub)) == d.py) = (pyFieldName env (al.getD n) == d.py) := rfl
+              simp only [List.flatMap_cons, aDecl1, List.singleton_append, List.filter_cons, e1, e2]
+              cases (pyFieldName env (al.getD n) == d.py) with
+              | true => simp only [if_true, List.length_cons]; omega
+              | false => simpa using ih'
+        have h2 : ((rflat a env tn sel).filter (fun x => pyFieldName env (keyOf x) == d.py)).length ≤ 1 := by
+          have hsub : ((rflat a env tn sel).filter (fun x => pyFieldName env (keyOf x) == d.py)).Sublist
+              ((cnodes a env tn sel).filter (fun x => pyFieldName env (keyOf x) == d.py)) := (rflat_sublist a env tn sel).filter _
+          have heq : (cnodes a env tn sel).filter (fun x => pyFieldName env (keyOf x) == d.py) =
+              (cnodes a env tn sel).filter (fun y => keyOf y == keyOf tc.2) := by
+            apply List.filter_congr
+            intro y hy
+            rw [hdpy]
+            cases hk : (keyOf y == keyOf tc.2) with
+            | true => simp [(by simpa using hk : keyOf y = keyOf tc.2)]
+            | false =>
+              cases hp : (pyFieldName env (keyOf y) == pyFieldName env (keyOf tc.2)) with
+              | false => rfl
+              | true =>
+                have := hD2 y hy tc.2 (hcn tc htc) (by simpa using hp)
+                simp [this] at hk
+          have := hsub.length_le
+          rw [heq, hu] at this
+          simpa using this
+        have h3 : (((rflat a env tn sel).flatMap (aDecl1 env cn tn tv)).filter (·.py == d.py)).length ≤ 1 :=
+          Nat.le_trans (h1 _ (rflat_isField a hloc)) h2
+        rw [hfil] at h3
+        cases rest with
+        | nil => rfl
+        | cons r rs => simp at h3
+      rw [hde, hrest]
+      rfl
+    | true =>
+      right
+      -- all declarations of the name: plain leaves with the same alias
+      have hprops : ∀ g ∈ declOf env cn tn tv tc :: rest,
+          g.alias = (if pyFieldName env (keyOf tc.2) != keyOf tc.2 then some (keyOf tc.2) else none) ∧ g.discriminator = false := by
+        intro g hg
+        obtain ⟨t, ht, _, htf, hk, rfl⟩ := hall g hg
+        have hplt : plainLeaf t.2 = true := by
+          rcases hD1 tc.2 (hcn tc htc) with h | h
+          · have := unique_tnode h htc ht hk
+            rw [this]; exact hpl
+          · exact (h t.2 (hcn t ht) hk).1
+        rw [declOf_plainLeaf env cn tn tv t htf hplt, hk]
+        exact ⟨rfl, rfl⟩
+      obtain ⟨i1, i2, ⟨x, hx, i3⟩, i4⟩ := C01Fold.mergeD_props _ rest (declOf env cn tn tv tc)
+        (hprops _ List.mem_cons_self).1 (hprops _ List.mem_cons_self).2
+        (fun g hg => hprops g (List.mem_cons_of_mem _ hg))
+      rw [← hde] at i1 i2 i3 i4
+      refine ⟨rfl, i1, i2, ?_, ?_⟩
+      · obtain ⟨t, ht, _, _, hk, rfl⟩ := hall x hx
+        exact ⟨t, ht, hk, i3⟩
+      · intro hdn
+        obtain ⟨y, hy, hyd⟩ := i4 hdn
+        obtain ⟨t, ht, _, htf, hk, rfl⟩ := hall y hy
+        have hplt : plainLeaf t.2 = true := by
+          rcases hD1 tc.2 (hcn tc htc) with h | h
+          · have := unique_tnode h htc ht hk
+            rw [this]; exact hpl
+          · exact (h t.2 (hcn t ht) hk).1
+        rw [declOf_plainLeaf env cn tn tv t htf hplt] at hyd
+        exact ⟨t, ht, hk, hyd⟩
+  have hall : ∀ bf ∈ (aBases env tn sel).map (allFields penv penv.classes.length) ++ [mergeDup ((rflat a env tn sel).flatMap (aDecl1 env cn tn tv))],
+      ∀ d ∈ bf, ∃ t ∈ tnodes a env tn sel, DeclFor env cn tn tv (tnodes a env tn sel) d t := by
+    intro bf hbf d hd
+    rcases List.mem_append.mp hbf with h | h
+    · obtain ⟨b, hb, rfl⟩ := List.mem_map.mp h
+      exact (hbase b hb).1 d hd
+    · have : bf = mergeDup ((rflat a env tn sel).flatMap (aDecl1 env cn tn tv)) := by simpa using h
+      subst this
+      exact hown d hd
+  -- every node's Python name is declared in some list
+  have hpyIn : ∀ t ∈ tnodes a env tn sel, ∃ bf ∈ (aBases env tn sel).map (allFields penv penv.classes.length) ++
+      [mergeDup ((rflat a env tn sel).flatMap (aDecl1 env cn tn tv))], ∃ d ∈ bf, d.py = pyFieldName env (keyOf t.2) ∧
+        (plainLeaf t.2 = false → d = declOf env cn tn tv t) := by
+    intro t ht
+    obtain ⟨o, y⟩ := t
+    have hyf := hTf _ ht
+    cases o with
+    | none =>
+      have hx := (tnodes_own _ _ _ _ _).mp ht
+      have hdm : declOf env cn tn tv (none, y) ∈ (rflat a env tn sel).flatMap (aDecl1 env cn tn tv) := by
+        cases y with
+        | spread g d => simp [isField] at hyf
+        | inline on d sid ss => simp [isField] at hyf
+        | field al n d sid sub => exact List.mem_flatMap.mpr ⟨_, hx, by simp [aDecl1, declOf]⟩
+      obtain ⟨_, _, hM3⟩ := C01Fold.mergeDup_spec ((rflat a env tn sel).flatMap (aDecl1 env cn tn tv))
+      obtain ⟨d, hd, hdp⟩ := hM3 _ hdm
+      refine ⟨_, by simp, d, hd, by rw [hdp, declOf_py _ _ _ _ _ hyf], fun hpl => ?_⟩
+      -- the node owns its key
+      obtain ⟨t', ht', hfor⟩ := hown d hd
+      obtain ⟨_, hpy', hform⟩ := hfor
+      have hk' : keyOf t'.2 = keyOf y := by
+        apply hD2 _ (hcn t' ht') _ (hcn _ ht)
+        rw [← hpy', hdp, declOf_py _ _ _ _ _ hyf]
+      have hu : (cnodes a env tn sel).filter (fun z => keyOf z == keyOf y) = [y] := by
+        rcases hD1 y (hcn _ ht) with h | h
+        · exact h
+        · have := (h y (hcn _ ht) rfl).1
+          rw [hpl] at this; cases this
+      have hte := unique_tnode (t := (none, y)) hu ht ht' hk'
+      rw [hte] at hform
+      rcases hform with ⟨_, h⟩ | ⟨h, _⟩
+      · exact h
+      · rw [hpl] at h; cases h
+    | some o' =>
+      obtain ⟨g, hocc, hp⟩ := (tnodes_inh _ _ _ _ _ _).mp ht
+      obtain ⟨f, hf, hon, hfn, hinh, _, _, h3⟩ := hfrag g hocc
+      refine ⟨allFields penv penv.classes.length (pascal g), ?_, declOf env cn tn tv (some o', y), ?_, declOf_py _ _ _ _ _ hyf, fun _ => rfl⟩
+      · exact List.mem_append_left _ (List.mem_map.mpr ⟨pascal g, pascal_mem_aBases ((mem_gSpreads env tn sel g).mpr hocc), rfl⟩)
+      · cases y with
+        | spread g' d => simp [isField] at hyf
+        | inline on d sid ss => simp [isField] at hyf
+        | field al n d sid sub =>
+          rw [hinh] at hp
+          have := h3 o' al n d sid sub hp
+          rw [hfn, hon] at this
+          exact this
+  refine ⟨?_, ?_, ?_, ?_⟩
+  · apply C01Mix.nodup_mstep_foldl _ _ (by simp)
+    intro bf hbf
+    rcases List.mem_append.mp hbf with h | h
+    · obtain ⟨b, hb, rfl⟩ := List.mem_map.mp h
+      exact (hbase b hb).2
+    · have : bf = mergeDup ((rflat a env tn sel).flatMap (aDecl1 env cn tn tv)) := by simpa using h
+      subst this
+      exact (C01Fold.mergeDup_spec _).1
+  · intro d hd
+    rcases C01Mix.mem_mstep_foldl d _ _ hd with h | ⟨bf, hbf, hdbf⟩
+    · cases h
+    · exact hall bf hbf d hdbf
+  · intro t ht
+    obtain ⟨bf, hbf, d, hd, hdp, _⟩ := hpyIn t ht
+    exact py_mstep_foldl _ _ _ (Or.inr ⟨bf, hbf, d, hd, hdp⟩)
+  · intro t ht hpl
+    obtain ⟨bf, hbf, d, hd, hdp, hde⟩ := hpyIn t ht
+    rw [← hde hpl]
+    apply C01Mix.mem_mstep_foldl_of _ _ _ (Or.inr ⟨bf, hbf, hd⟩)
+    -- a declaration of the same name is the declaration of the same node: the node owns its key
+    intro bf' hbf' d' hd' hpy
+    obtain ⟨t', ht', _, hpy', hform⟩ := hall bf' hbf' d' hd'
+    have hk' : keyOf t'.2 = keyOf t.2 := by
+      apply hD2 _ (hcn t' ht') _ (hcn t ht)
+      rw [← hpy', hpy, hdp]
+    have hu : (cnodes a env tn sel).filter (fun z => keyOf z == keyOf t.2) = [t.2] := by
+      rcases hD1 t.2 (hcn t ht) with h | h
+      · exact h
+      · have := (h t.2 (hcn t ht) rfl).1
+        rw [hpl] at this; cases this
+    have hte := unique_tnode hu ht ht' hk'
+    rw [hte] at hform
+    rcases hform with ⟨_, h⟩ | ⟨h, _⟩
+    · rw [h, hde hpl]
+    · rw [hpl] at h; cases h
+
+theorem typenameLiteral_of_mem (penv : Pyd.Env) (cn : String)
+    (hnd : ((allFields penv penv.clsFuel cn).map (·.py)).Nodup)
+    (d : FieldDecl) (hd : d ∈ allFields penv penv.clsFuel cn) (hpy : d.py = typenameAlias) (vs : List String)
+    (hann : d.ann = .literal vs) : typenameLiteral penv penv.clsFuel cn = some vs := by
+  unfold typenameLiteral
+  cases hf : (allFields penv penv.clsFuel cn).find? (·.py == typenameAlias) with
+  | none =>
+    have := List.find?_eq_none.mp hf d hd
+    simp [hpy] at this
+  | some e =>
+    have he := List.mem_of_find?_eq_some hf
+    have hpe : e.py = typenameAlias := by simpa using List.find?_some hf
+    have := eq_of_nodup_py _ hnd d hd e he (by rw [hpe, hpy])
+    subst this
+    simp [hann]
 
 /-- the `typename__` literal of a variant class -/
-theorem variant_literal (env : ResultTypes.Env) (penv : Pyd.Env) (hbm : penv.class? "BaseModel" = none)
+theorem variant_literal (env : ResultTypes.Env) (penv : Pyd.Env) (K F : Nat) (G : GH env penv K F)
     {mk : Nat → Bool} (cn tn : String) (rts tv : List String) (sel : List Selection)
-    (hloc : aSels env mk cn tn rts sel = true) (hset : setOK env (rflat true env tn sel) = true) (htvne : tv.isEmpty = false)
-    (hc : penv.class? cn = some { name := cn, bases := ["BaseModel"], fields := (rflat true env tn sel).flatMap (aDecl1 env cn tn tv) }) :
+    (hloc : aSels env mk cn tn rts sel = true) (hset : dupOK env (cnodes true env tn sel) = true) (htvne : tv.isEmpty = false)
+    (hc : penv.class? cn = some { name := cn, bases := aBases env tn sel, fields := (rflat true env tn sel).flatMap (aDecl1 env cn tn tv) }) :
     typenameLiteral penv penv.clsFuel cn = some (sortStr tv) := by
   obtain ⟨dirs, sid, sub0, hx, _⟩ := exists_tn hloc
-  obtain ⟨_, hnd⟩ := class_fields env penv hbm cn tn rts tv true sel hloc hset hc
-  refine typenameLiteral_class penv ⟨cn, ["BaseModel"], _⟩ hc rfl hbm hnd (aDecl env cn tn tv none typenameField dirs sub0)
-    (List.mem_flatMap.mpr ⟨_, hx, by simp [aDecl1]⟩) ?_ (sortStr tv) ?_
-  · rw [aDecl_py]; exact pyFieldName_tn env
-  · simp [aDecl, htvne]
+  obtain ⟨hnd, _, _, hC⟩ := class_members env penv K F G cn tn rts tv true sel hloc hset hc
+  have hd := hC _ ((tnodes_own _ _ _ _ _).mpr hx) (by simp [plainLeaf, nameOf])
+  refine typenameLiteral_of_mem penv cn hnd _ hd ?_ (sortStr tv) ?_
+  · simp only [declOf]; rw [aDecl_py]; exact pyFieldName_tn env
+  · simp [declOf, aDecl, htvne]
 
 /-! ### one composite position -/
 
@@ -632,13 +1790,13 @@ structure PosOK (env : ResultTypes.Env) (penv : Pyd.Env) (M : List Nat) (C n : S
   cls : ∀ c ∈ variantClasses env (relatedOf env C n sub) (env.schema.isAbstract n) sub (relatedOf env C n sub),
     penv.class? c.name = some c
 
-theorem variant_rt (env : ResultTypes.Env) (penv : Pyd.Env) (frags : List Fragment) (M : List Nat) (e : Nat)
-    (IH : ValSpec env penv frags M e) (C n : String) (sub : List Selection) (hpos : PosOK env penv M C n sub)
-    (hfu : agfuel sub ≤ e) (p : String × String) (hp : p ∈ relatedOf env C n sub)
+theorem variant_rt (env : ResultTypes.Env) (penv : Pyd.Env) (M : List Nat) (K F : Nat) (e : Nat)
+    (IH : ValSpec env penv M K F e) (C n : String) (sub : List Selection) (hpos : PosOK env penv M C n sub)
+    (hfu : agfuel sub + K ≤ e) (p : String × String) (hp : p ∈ relatedOf env C n sub)
     (rt' : String) (hrt1 : rt' ∈ Exec.runtimeTypes env.schema n) (hrt2 : rt' ∈ tvOf env (relatedOf env C n sub) p.2)
     (v' : J) (hnd : nodupKeys v' = true)
-    (hresp : Exec.respOK env.schema frags e rt' (sent (env.schema.isAbstract n) M sub) v' = true)
-    (g : Nat) (hg : avneed env p.1 p.2 sub + 4 ≤ g) : RT (validate penv g (.cls p.1) v') v' := by
+    (hresp : Exec.respOK env.schema env.frags e rt' (sent (env.schema.isAbstract n) M sub) v' = true)
+    (g : Nat) (hg : avneed env p.1 p.2 sub + 4 + F ≤ g) : RT (validate penv g (.cls p.1) v') v' := by
   obtain ⟨_, h1, h2⟩ := hpos.vars p hp
   refine IH p.1 p.2 rt' _ sub _ (env.schema.isAbstract n) v' ?_ h1 h2 ?_ hfu hresp hnd g hg
   · exact List.mem_filter.mpr ⟨hrt1, by simpa using hrt2⟩
@@ -647,13 +1805,14 @@ theorem variant_rt (env : ResultTypes.Env) (penv : Pyd.Env) (frags : List Fragme
 
 /-- the answer at an abstract position: an object whose `__typename` is a runtime type `rt'`; the FIRST variant whose literal
     contains `rt'` accepts it -/
-theorem position_pick (env : ResultTypes.Env) (penv : Pyd.Env) (frags : List Fragment) (M : List Nat) (k : Nat)
-    (IH : ValSpec env penv frags M (k + 2)) (C n : String) (sub : List Selection) (hpos : PosOK env penv M C n sub)
+theorem position_pick (env : ResultTypes.Env) (penv : Pyd.Env) (M : List Nat) (K F : Nat) (k : Nat)
+    (G : GH env penv K F)
+    (IH : ValSpec env penv M K F (k + 2)) (C n : String) (sub : List Selection) (hpos : PosOK env penv M C n sub)
     (habs : env.schema.isAbstract n = true)
-    (hfu : agfuel sub ≤ k + 2) (B : Nat) (hB : ∀ p ∈ relatedOf env C n sub, avneed env p.1 p.2 sub + 4 ≤ B)
+    (hfu : agfuel sub + K ≤ k + 2) (B : Nat) (hB : ∀ p ∈ relatedOf env C n sub, avneed env p.1 p.2 sub + 4 + F ≤ B)
     (v' : J) (hnd : nodupKeys v' = true)
     (hP : ((Exec.runtimeTypes env.schema n).any fun rt' =>
-      Exec.respOK env.schema frags (k + 2) rt' (sent true M sub) v') = true)
+      Exec.respOK env.schema env.frags (k + 2) rt' (sent true M sub) v') = true)
     (g : Nat) (hg : B ≤ g) :
     ∃ kvs rt' p0, v' = .obj kvs ∧
       (relatedOf env C n sub).find? (fun p => (tvOf env (relatedOf env C n sub) p.2).contains rt') = some p0 ∧
@@ -670,9 +1829,10 @@ theorem position_pick (env : ResultTypes.Env) (penv : Pyd.Env) (frags : List Fra
     have hrt0 : rt' ∈ tvOf env (relatedOf env C n sub) p0.2 := by simpa using List.find?_some hfind
     obtain ⟨_, h1, h2⟩ := hpos.vars p0 hp0
     rw [habs] at h1
-    have hkeys := (setOK_spec (classHead_spec h1).1).1
-    have htag := resp_typename env frags M rt' (List.mem_filter.mpr ⟨hrt1, by simpa using hrt0⟩) sub h2 hkeys k kvs hresp
-    have hrt := variant_rt env penv frags M (k + 2) IH C n sub hpos hfu p0 hp0 rt' hrt1 hrt0 (.obj kvs) hnd
+    have hkeys := (classHead_spec h1).1
+    have htag := resp_typename env K G.hfr M rt' (List.mem_filter.mpr ⟨hrt1, by simpa using hrt0⟩) sub h2 hkeys k
+      (by have := agfuel_ge sub; omega) kvs hresp
+    have hrt := variant_rt env penv M K F (k + 2) IH C n sub hpos hfu p0 hp0 rt' hrt1 hrt0 (.obj kvs) hnd
       (by rw [habs]; exact hresp) g (Nat.le_trans (hB p0 hp0) hg)
     exact ⟨kvs, rt', p0, rfl, hfind, htag, hrt⟩
 
@@ -680,29 +1840,29 @@ theorem position_pick (env : ResultTypes.Env) (penv : Pyd.Env) (frags : List Fra
 theorem variant_class (env : ResultTypes.Env) (penv : Pyd.Env) (M : List Nat) (C n : String) (sub : List Selection)
     (hpos : PosOK env penv M C n sub) (habs : env.schema.isAbstract n = true)
     (p : String × String) (hp : p ∈ relatedOf env C n sub) :
-    penv.class? p.1 = some (⟨p.1, ["BaseModel"],
+    penv.class? p.1 = some (⟨p.1, aBases env p.2 sub,
       (rflat true env p.2 sub).flatMap (aDecl1 env p.1 p.2 (tvOf env (relatedOf env C n sub) p.2))⟩ : ClassDecl) :=
-  hpos.cls ⟨p.1, ["BaseModel"], (rflat true env p.2 sub).flatMap
+  hpos.cls ⟨p.1, aBases env p.2 sub, (rflat true env p.2 sub).flatMap
     (aDecl1 env p.1 p.2 (tvOf env (relatedOf env C n sub) p.2))⟩
     (List.mem_flatMap.mpr ⟨p, hp, by rw [habs]; simp [aClass]⟩)
 
-theorem tagged_rt (env : ResultTypes.Env) (penv : Pyd.Env) (frags : List Fragment) (M : List Nat) (k : Nat)
-    (hbm : penv.class? "BaseModel" = none)
-    (IH : ValSpec env penv frags M (k + 2)) (C n : String) (sub : List Selection) (hpos : PosOK env penv M C n sub)
+theorem tagged_rt (env : ResultTypes.Env) (penv : Pyd.Env) (M : List Nat) (K F : Nat) (k : Nat)
+    (G : GH env penv K F)
+    (IH : ValSpec env penv M K F (k + 2)) (C n : String) (sub : List Selection) (hpos : PosOK env penv M C n sub)
     (habs : env.schema.isAbstract n = true)
-    (hfu : agfuel sub ≤ k + 2) (B : Nat) (hB : ∀ p ∈ relatedOf env C n sub, avneed env p.1 p.2 sub + 4 ≤ B)
+    (hfu : agfuel sub + K ≤ k + 2) (B : Nat) (hB : ∀ p ∈ relatedOf env C n sub, avneed env p.1 p.2 sub + 4 + F ≤ B)
     (v' : J) (hnd : nodupKeys v' = true)
     (hP : ((Exec.runtimeTypes env.schema n).any fun rt' =>
-      Exec.respOK env.schema frags (k + 2) rt' (sent true M sub) v') = true)
+      Exec.respOK env.schema env.frags (k + 2) rt' (sent true M sub) v') = true)
     (g : Nat) (hg : B ≤ g) :
     RT (taggedWith penv penv.clsFuel (validate penv g) ((relatedOf env C n sub).map fun p => Ann.cls p.1) v') v' := by
-  obtain ⟨kvs, rt', p0, rfl, hfind, htag, hrt⟩ := position_pick env penv frags M k IH C n sub hpos habs hfu B hB v' hnd hP g hg
+  obtain ⟨kvs, rt', p0, rfl, hfind, htag, hrt⟩ := position_pick env penv M K F k G IH C n sub hpos habs hfu B hB v' hnd hP g hg
   have hlits : ∀ p ∈ relatedOf env C n sub,
       typenameLiteral penv penv.clsFuel p.1 = some (sortStr (tvOf env (relatedOf env C n sub) p.2)) := by
     intro p hp
     obtain ⟨hne, hh1, hh2⟩ := hpos.vars p hp
     rw [habs] at hh1
-    exact variant_literal env penv hbm p.1 p.2 _ _ sub hh2 (classHead_spec hh1).1 hne (variant_class env penv M C n sub hpos habs p hp)
+    exact variant_literal env penv K F G p.1 p.2 _ _ sub hh2 (classHead_spec hh1).1 hne (variant_class env penv M C n sub hpos habs p hp)
   rw [taggedWith_variant penv (validate penv g) (fun p => tvOf env (relatedOf env C n sub) p.2) rt' kvs htag p0
     (relatedOf env C n sub) hlits hfind]
   exact hrt
@@ -730,19 +1890,20 @@ theorem validate_literal_reject (penv : Pyd.Env) (g : Nat) (vs : List String) (s
 theorem typenameAlias_ne : (typenameAlias != typenameField) = true := by decide
 
 /-- a variant class whose literal does not contain the runtime type rejects the answer -/
-theorem variant_rejects (env : ResultTypes.Env) (penv : Pyd.Env) (hbm : penv.class? "BaseModel" = none)
+theorem variant_rejects (env : ResultTypes.Env) (penv : Pyd.Env) (K F : Nat) (G : GH env penv K F)
     {mk : Nat → Bool} (cn tn : String) (rts tv : List String) (sel : List Selection)
-    (hloc : aSels env mk cn tn rts sel = true) (hset : setOK env (rflat true env tn sel) = true) (htvne : tv.isEmpty = false)
-    (hc : penv.class? cn = some { name := cn, bases := ["BaseModel"], fields := (rflat true env tn sel).flatMap (aDecl1 env cn tn tv) })
+    (hloc : aSels env mk cn tn rts sel = true) (hset : dupOK env (cnodes true env tn sel) = true) (htvne : tv.isEmpty = false)
+    (hc : penv.class? cn = some { name := cn, bases := aBases env tn sel, fields := (rflat true env tn sel).flatMap (aDecl1 env cn tn tv) })
     (kvs : List (String × J)) (tag : String) (htag : J.lookup typenameField kvs = some (.str tag)) (hnot : tag ∉ tv)
     (g : Nat) : ∃ e, validate penv g (.cls cn) (.obj kvs) = .error e := by
   cases g with
   | zero => exact ⟨_, rfl⟩
   | succ g =>
     obtain ⟨dirs, sid, sub0, hx, _⟩ := exists_tn hloc
-    obtain ⟨hall, _⟩ := class_fields env penv hbm cn tn rts tv true sel hloc hset hc
-    have hd : aDecl env cn tn tv none typenameField dirs sub0 ∈ (rflat true env tn sel).flatMap (aDecl1 env cn tn tv) :=
-      List.mem_flatMap.mpr ⟨_, hx, by simp [aDecl1]⟩
+    obtain ⟨_, _, _, hC⟩ := class_members env penv K F G cn tn rts tv true sel hloc hset hc
+    have hd : aDecl env cn tn tv none typenameField dirs sub0 ∈ allFields penv penv.clsFuel cn := by
+      have := hC _ ((tnodes_own _ _ _ _ _).mpr hx) (by simp [plainLeaf, nameOf])
+      simpa [declOf] using this
     have hfw : ∃ e, fieldWith penv penv.clsFuel (validate penv g) kvs (aDecl env cn tn tv none typenameField dirs sub0) = .error e := by
       obtain ⟨e, he⟩ := validate_literal_reject penv g (sortStr tv) tag (fun h => hnot ((mem_sortStr tag tv).mp h))
       refine ⟨e, ?_⟩
@@ -757,7 +1918,7 @@ theorem variant_rejects (env : ResultTypes.Env) (penv : Pyd.Env) (hbm : penv.cla
     refine ⟨e, ?_⟩
     rw [validate_cls_succ]
     unfold modelWith
-    simp only [hc, hall, he]
+    simp only [hc, he]
 
 theorem firstOk_variant (f : Ann → Except VErr PV) (lit : String × String → List String) (tag : String)
     (p0 : String × String) (v : PV) (hv : f (.cls p0.1) = .ok v) :
@@ -786,24 +1947,24 @@ theorem firstOk_variant (f : Ann → Except VErr PV) (lit : String × String →
 theorem validate_union_succ (penv : Pyd.Env) (g : Nat) (as : List Ann) (j : J) :
     validate penv (g + 1) (.union as) j = firstOk (fun a => validate penv g a j) .noUnionMember as := rfl
 
-theorem smart_rt (env : ResultTypes.Env) (penv : Pyd.Env) (frags : List Fragment) (M : List Nat) (k : Nat)
-    (hbm : penv.class? "BaseModel" = none)
-    (IH : ValSpec env penv frags M (k + 2)) (C n : String) (sub : List Selection) (hpos : PosOK env penv M C n sub)
+theorem smart_rt (env : ResultTypes.Env) (penv : Pyd.Env) (M : List Nat) (K F : Nat) (k : Nat)
+    (G : GH env penv K F)
+    (IH : ValSpec env penv M K F (k + 2)) (C n : String) (sub : List Selection) (hpos : PosOK env penv M C n sub)
     (habs : env.schema.isAbstract n = true)
-    (hfu : agfuel sub ≤ k + 2) (B : Nat) (hB : ∀ p ∈ relatedOf env C n sub, avneed env p.1 p.2 sub + 4 ≤ B)
+    (hfu : agfuel sub + K ≤ k + 2) (B : Nat) (hB : ∀ p ∈ relatedOf env C n sub, avneed env p.1 p.2 sub + 4 + F ≤ B)
     (v' : J) (hnd : nodupKeys v' = true)
     (hP : ((Exec.runtimeTypes env.schema n).any fun rt' =>
-      Exec.respOK env.schema frags (k + 2) rt' (sent true M sub) v') = true)
+      Exec.respOK env.schema env.frags (k + 2) rt' (sent true M sub) v') = true)
     (g : Nat) (hg : B ≤ g) :
     RT (firstOk (fun a => validate penv g a v') .noUnionMember ((relatedOf env C n sub).map fun p => Ann.cls p.1)) v' := by
-  obtain ⟨kvs, rt', p0, rfl, hfind, htag, ⟨v, hv, he⟩⟩ := position_pick env penv frags M k IH C n sub hpos habs hfu B hB v' hnd hP g hg
+  obtain ⟨kvs, rt', p0, rfl, hfind, htag, ⟨v, hv, he⟩⟩ := position_pick env penv M K F k G IH C n sub hpos habs hfu B hB v' hnd hP g hg
   refine ⟨v, ?_, he⟩
   refine firstOk_variant (fun a => validate penv g a (.obj kvs)) (fun p => tvOf env (relatedOf env C n sub) p.2) rt' p0 v hv
     (relatedOf env C n sub) ?_ hfind
   intro p hp hnc
   obtain ⟨hne, hh1, hh2⟩ := hpos.vars p hp
   rw [habs] at hh1
-  exact variant_rejects env penv hbm p.1 p.2 _ _ sub hh2 (classHead_spec hh1).1 hne (variant_class env penv M C n sub hpos habs p hp)
+  exact variant_rejects env penv K F G p.1 p.2 _ _ sub hh2 (classHead_spec hh1).1 hne (variant_class env penv M C n sub hpos habs p hp)
     kvs rt' htag (by simpa using hnc) g
 
 /-! ### one field -/
@@ -835,24 +1996,24 @@ theorem avneed_variant (env : ResultTypes.Env) (rel : List (String × String)) (
     avneed env p.1 p.2 sub ≤ (rel.map fun p => avneed env p.1 p.2 sub).foldl max 0 :=
   le_foldl_max _ 0 _ (Or.inr (List.mem_map.mpr ⟨p, hp, rfl⟩))
 
-theorem field_rt (env : ResultTypes.Env) (penv : Pyd.Env) (frags : List Fragment) (M : List Nat) (e : Nat)
-    (ha : ResultLeaf.EnvAgrees env penv) (hbm : penv.class? "BaseModel" = none) (IH : ValSpec env penv frags M e)
+theorem field_rt (env : ResultTypes.Env) (penv : Pyd.Env) (M : List Nat) (K F : Nat) (e : Nat)
+    (G : GH env penv K F) (IH : ValSpec env penv M K F e)
     (cn tn : String) (rts tv : List String)
     (alias : Option String) (name : String) (dirs : List Directive) (sid : Nat) (sub : List Selection) (v : J)
     (hname : (name == typenameField) = false)
     (hl : aSel1 env M.contains cn tn rts (.field alias name dirs sid sub) = true)
     (hcls : ∀ c ∈ aExtra1 env cn tn (.field alias name dirs sid sub), penv.class? c.name = some c)
-    (hfu : agfuel1 (.field alias name dirs sid sub) ≤ e + 1)
+    (hfu : agfuel1 (.field alias name dirs sid sub) + K ≤ e + 1)
     (hnd : nodupKeys v = true)
     (hc : Exec.complete (fun n v =>
         if (if M.contains sid && !sub.isEmpty then Marks.typenameSel :: Marks.applySels M sub
             else Marks.applySels M sub).isEmpty then Exec.leafOk env.schema n v
         else (Exec.runtimeTypes env.schema n).any fun rt' =>
-          Exec.respOK env.schema frags e rt'
+          Exec.respOK env.schema env.frags e rt'
             (if M.contains sid && !sub.isEmpty then Marks.typenameSel :: Marks.applySels M sub
              else Marks.applySels M sub) v)
         (fieldT env tn name) true v = true) :
-    ∀ g, avneed1 env cn tn (.field alias name dirs sid sub) ≤ g →
+    ∀ g, avneed1 env cn tn (.field alias name dirs sid sub) + F ≤ g →
       RT (fieldRec penv penv.clsFuel (validate penv g) (aDecl env cn tn tv alias name dirs sub) v) v := by
   simp only [aSel1, Bool.and_eq_true, hname, Bool.false_eq_true, if_false] at hl
   obtain ⟨hmix, ⟨hfd, _⟩, hcase⟩ := hl
@@ -881,7 +2042,7 @@ theorem field_rt (env : ResultTypes.Env) (penv : Pyd.Env) (frags : List Fragment
     refine condAnn_rt penv _ dirs v (wneed (fieldT env tn name) + 1) ?_ g (by omega)
     intro fuel hfuel
     rw [← leafAnn_eq_wrapAnn]
-    obtain ⟨pv, hpv, hd⟩ := ResultLeaf.validate_leaf_dump env penv ha (fieldT env tn name) (isLeafName_spec hcase)
+    obtain ⟨pv, hpv, hd⟩ := ResultLeaf.validate_leaf_dump env penv G.ha (fieldT env tn name) (isLeafName_spec hcase)
       true v fuel (by rw [need_eq_wneed]; exact hfuel) hc
     exact ⟨pv, hpv, by rw [hd]; exact eqv_refl v hnd⟩
   · -- composite
@@ -890,7 +2051,7 @@ theorem field_rt (env : ResultTypes.Env) (penv : Pyd.Env) (frags : List Fragment
     simp only [Bool.and_eq_true, List.all_eq_true, beq_iff_eq, Bool.not_eq_true', List.any_eq_true] at hcase
     obtain ⟨⟨⟨⟨hkind, hmk⟩, hne⟩, hcov⟩, hvars⟩ := hcase
     simp only [hsub', Bool.false_eq_true, if_false] at hg
-    have hfu' : agfuel sub + 2 ≤ e + 1 := by simpa [agfuel1, hsub'] using hfu
+    have hfu' : agfuel sub + 2 + K ≤ e + 1 := by simpa [agfuel1, hsub'] using hfu
     rw [sent_eq (env.schema.isAbstract (subType env tn name)) M sid sub hmk hsub'] at hc
     simp only [sent_nonempty _ M sub hsub', Bool.false_eq_true, if_false] at hc
     rw [aExtra1_field _ _ _ _ _ _ _ _ hsub' hname] at hcls
@@ -901,10 +2062,10 @@ theorem field_rt (env : ResultTypes.Env) (penv : Pyd.Env) (frags : List Fragment
         fun p hp => by
           have := hvars p hp
           exact ⟨by simpa using this.1.1, this.1.2, this.2⟩, hcls⟩
-    have hagf : agfuel sub ≤ e := by omega
+    have hagf : agfuel sub + K ≤ e := by omega
     have hBv : ∀ p ∈ relatedOf env (subClass env cn alias name) (subType env tn name) sub,
-        avneed env p.1 p.2 sub + 4 ≤
-          ((relatedOf env (subClass env cn alias name) (subType env tn name) sub).map fun p => avneed env p.1 p.2 sub).foldl max 0 + 4 := by
+        avneed env p.1 p.2 sub + 4 + F ≤
+          ((relatedOf env (subClass env cn alias name) (subType env tn name) sub).map fun p => avneed env p.1 p.2 sub).foldl max 0 + 4 + F := by
       intro p hp
       have := avneed_variant env _ sub p hp
       omega
@@ -923,7 +2084,7 @@ theorem field_rt (env : ResultTypes.Env) (penv : Pyd.Env) (frags : List Fragment
         obtain ⟨p, _, rfl⟩ := List.mem_map.mp ha'
         exact ⟨_, rfl⟩
       have htag := fun (v' : J) (hnd' : nodupKeys v' = true) hP g' hg' =>
-        tagged_rt env penv frags M k hbm IH (subClass env cn alias name) (subType env tn name) sub hpos habs hagf _ hBv
+        tagged_rt env penv M K F k G IH (subClass env cn alias name) (subType env tn name) sub hpos habs hagf _ hBv
           v' hnd' hP g' hg'
       by_cases hbare : bareT true (fieldT env tn name) = true
       · -- no wrapper
@@ -937,7 +2098,7 @@ theorem field_rt (env : ResultTypes.Env) (penv : Pyd.Env) (frags : List Fragment
             simp [condAnn, hcd, isNullableAnn]
           simp only [fieldRec, aDecl, hname, hsub', Bool.false_and, Bool.false_eq_true, if_false, hann, isUnionAnn]
           have hsm := fun (v' : J) (hnd' : nodupKeys v' = true) hP g' hg' =>
-            smart_rt env penv frags M k hbm IH (subClass env cn alias name) (subType env tn name) sub hpos habs hagf _ hBv
+            smart_rt env penv M K F k G IH (subClass env cn alias name) (subType env tn name) sub hpos habs hagf _ hBv
               v' hnd' hP g' hg'
           obtain ⟨g2, rfl⟩ : ∃ g2, g = g2 + 2 := ⟨g - 2, by have := wneed_pos (fieldT env tn name); omega⟩
           rw [ResultLeaf.validate_optional_succ]
@@ -975,7 +2136,7 @@ theorem field_rt (env : ResultTypes.Env) (penv : Pyd.Env) (frags : List Fragment
         simp only [fieldRec, aDecl, hname, hsub', Bool.false_and, Bool.false_eq_true, if_false, hann, hdisc]
         refine condAnn_rt penv _ dirs v
           (((relatedOf env (subClass env cn alias name) (subType env tn name) sub).map fun p => avneed env p.1 p.2 sub).foldl max 0
-            + 4 + 1 + wneed (fieldT env tn name)) ?_ g (by omega)
+            + 4 + F + 1 + wneed (fieldT env tn name)) ?_ g (by omega)
         intro fuel hfuel
         refine wrap_rt penv _ _ _ (fieldT env tn name) ?_ true v fuel hfuel hnd hc
         intro g' hg' v' hnd' hP
@@ -1000,7 +2161,7 @@ theorem field_rt (env : ResultTypes.Env) (penv : Pyd.Env) (frags : List Fragment
       have hp0 : (subClass env cn alias name, subType env tn name) ∈
           relatedOf env (subClass env cn alias name) (subType env tn name) sub := by rw [hrel]; simp
       refine condAnn_rt penv _ dirs v
-        (avneed env (subClass env cn alias name) (subType env tn name) sub + 4 + wneed (fieldT env tn name)) ?_ g (by
+        (avneed env (subClass env cn alias name) (subType env tn name) sub + 4 + F + wneed (fieldT env tn name)) ?_ g (by
           have := hBv _ hp0
           simp only at this
           omega)
@@ -1011,7 +2172,7 @@ theorem field_rt (env : ResultTypes.Env) (penv : Pyd.Env) (frags : List Fragment
       obtain ⟨p, hp, hpc⟩ := hpos.cover rt' hrt1
       have hpe : p = (subClass env cn alias name, subType env tn name) := by rw [hrel] at hp; simpa using hp
       subst hpe
-      exact variant_rt env penv frags M e IH _ _ sub hpos hagf _ hp0 rt' hrt1 hpc v' hnd' hresp g' hg'
+      exact variant_rt env penv M K F e IH _ _ sub hpos hagf _ hp0 rt' hrt1 hpc v' hnd' hresp g' hg'
 
 /-- a leaf field -/
 theorem leaf_rt (env : ResultTypes.Env) (penv : Pyd.Env) (ha : ResultLeaf.EnvAgrees env penv) (T : TypeRef)
@@ -1070,7 +2231,7 @@ theorem avneed_flat (env : ResultTypes.Env) (cn tn : String) (sel : List Selecti
       simp only [flat1] at hxs
       by_cases hi : incl env c tn = true
       · simp only [hi, if_true] at hxs
-        have := avneed_mem env cn tn ss x hxs
+        have := avneed_mem env cn tn ss x (List.mem_filter.mp hxs).1
         simp only [avneed1, hi, if_true] at h1
         omega
       · simp [hi] at hxs
@@ -1089,148 +2250,362 @@ theorem mem_rflat_notTn {a : Bool} {env : ResultTypes.Env} {tn : String} {sel : 
     · cases h1
   · exact h1
 
-theorem class_rt (env : ResultTypes.Env) (penv : Pyd.Env) (frags : List Fragment) (M : List Nat)
-    (ha : ResultLeaf.EnvAgrees env penv) (hbm : penv.class? "BaseModel" = none) (e : Nat)
-    (IH : ValSpec env penv frags M e) : ValSpec env penv frags M (e + 1) := by
+theorem class_rt (env : ResultTypes.Env) (penv : Pyd.Env) (M : List Nat) (K F : Nat) (G : GH env penv K F) (e : Nat)
+    (IH : ValSpec env penv M K F e) : ValSpec env penv M K F (e + 1) := by
   intro cn tn rt rts sel tv a j hrt hhead hloc hcls hfuel hresp hndj vfuel hvf
   have hge := agfuel_ge sel
   obtain ⟨k, rfl⟩ : ∃ k, e = k + 1 := ⟨e - 1, by omega⟩
   obtain ⟨kvs, rfl⟩ := respOK_isObj _ _ _ _ _ _ hresp
   obtain ⟨g, rfl⟩ : ∃ g, vfuel = g + 1 := ⟨vfuel - 1, by omega⟩
   obtain ⟨hset, htvc⟩ := classHead_spec hhead
-  obtain ⟨hkeys, hpys, hpk⟩ := setOK_spec hset
-  obtain ⟨hr1, hr2⟩ := resp_facts env frags M rt hrt a sel hloc hkeys k kvs hresp
+  obtain ⟨hD1, hD2, hD3⟩ := dupOK_spec hset
+  have hKk : K ≤ k := by omega
+  obtain ⟨hr1, hr2⟩ := resp_facts env K G.hfr M rt hrt a sel hloc hset k hKk kvs hresp
+  have hTf := tnodes_isField env K G.hfr a hloc
   have hfl := rflat_spec a hloc
-  have hsubkeys : ∀ key ∈ kvs.map (·.1), key ∈ (rflat a env tn sel).map keyOf := by
+  have hcont := aSels_contentOK hloc
+  have hcn : ∀ t ∈ tnodes a env tn sel, t.2 ∈ cnodes a env tn sel :=
+    fun t ht => by rw [← tnodes_snd]; exact List.mem_map.mpr ⟨t, ht, rfl⟩
+  have hsubkeys : ∀ key ∈ kvs.map (·.1), key ∈ (cnodes a env tn sel).map keyOf := by
     intro key hk
     obtain ⟨p, hp, rfl⟩ := List.mem_map.mp hk
-    obtain ⟨x, hx, hxk⟩ := hr1 p hp
-    rw [← hxk]
-    exact List.mem_map.mpr ⟨x, hx, rfl⟩
+    obtain ⟨t, ht, htk⟩ := hr1 p hp
+    rw [← htk]
+    exact List.mem_map.mpr ⟨t.2, hcn t ht, rfl⟩
   obtain ⟨hkn, hkv, hklk⟩ := nodupKvs_spec kvs (by simpa [nodupKeys] using hndj)
-  have hc0 : penv.class? cn = some { name := cn, bases := ["BaseModel"], fields := (rflat a env tn sel).flatMap (aDecl1 env cn tn tv) } :=
-    hcls ⟨cn, ["BaseModel"], (rflat a env tn sel).flatMap (aDecl1 env cn tn tv)⟩ (by simp [aClass])
-  obtain ⟨hall, _⟩ := class_fields env penv hbm cn tn rts tv a sel hloc hset hc0
-  obtain ⟨fs, hfs, heq, hkeysD⟩ := mapE_fields (fieldWith penv penv.clsFuel (validate penv g) kvs) kvs
-    (fun d => d.alias.getD d.py) ((rflat a env tn sel).flatMap (aDecl1 env cn tn tv)) (by
-    intro d hd
-    obtain ⟨alias, name, dirs, sid, sub, hx, rfl⟩ := mem_decls hd
-    have hkeymem : alias.getD name ∈ (rflat a env tn sel).map keyOf := List.mem_map.mpr ⟨_, hx, rfl⟩
-    obtain ⟨_, hlx⟩ := hfl _ hx
-    have hfw := fieldWith_gen penv penv.clsFuel (validate penv g) kvs (aDecl env cn tn tv alias name dirs sub)
-      (alias.getD name) (by rw [aDecl_alias, aDecl_py]) (by
-        rw [aDecl_py]
-        rcases hpk _ hkeymem with h | h
-        · exact Or.inl h
-        · exact Or.inr ((lookup_none_iff _ _).mpr (fun hm => h (hsubkeys _ hm))))
-    have hg := hr2 _ hx
-    rw [applySel_field] at hg
-    simp only [groupOK, collOf, isConditional_eq, Bool.false_or] at hg
-    simp only [aDecl_key]
-    by_cases hname : (name == typenameField) = true
-    · -- `__typename`
-      have hlx' := hlx
-      simp only [aSel1, hname, if_true, Bool.and_eq_true, Bool.not_eq_true'] at hlx'
-      obtain ⟨_, ⟨⟨_, hcond⟩, _⟩⟩ := hlx'
-      have hany : (rflat a env tn sel).any isTnSel = true :=
-        List.any_eq_true.mpr ⟨_, hx, by simpa [isTnSel] using hname⟩
-      obtain ⟨hroot, hrts⟩ := htvc hany
-      have hname2 : (name == Tables.typenameFieldName) = true := hname
-      cases hlk : J.lookup (alias.getD name) kvs with
+  have hc0 : penv.class? cn = some { name := cn, bases := aBases env tn sel, fields := (rflat a env tn sel).flatMap (aDecl1 env cn tn tv) } :=
+    hcls ⟨cn, aBases env tn sel, (rflat a env tn sel).flatMap (aDecl1 env cn tn tv)⟩ (by simp [aClass])
+  obtain ⟨hA2, hA1, hA3, _⟩ := class_members env penv K F G cn tn rts tv a sel hloc hset hc0
+  have hmixIH := C01Mix.val_spec env penv K G.hfr G.ha G.hbm G.frags (by have := G.depth; omega) (k + 1)
+  -- what is known about a plain leaf node: its field exists on the runtime type with the class's field type, is a leaf, and the
+  -- validation fuel covers its wrappers
+  have hleafnode : ∀ t ∈ tnodes a env tn sel, plainLeaf t.2 = true →
+      (nameOf t.2 == Tables.typenameFieldName) = false ∧
+      (∃ fd, env.schema.fieldOf? rt (nameOf t.2) = some fd ∧ fd.type = fieldT env tn (nameOf t.2)) ∧
+      isLeafName env (fieldT env tn (nameOf t.2)).base = true ∧ wneed (fieldT env tn (nameOf t.2)) + 2 ≤ g := by
+    intro t ht hpl
+    have htf := hTf t ht
+    obtain ⟨o, y⟩ := t
+    cases y with
+    | spread g' d' => simp [isField] at htf
+    | inline on d' sid' ss' => simp [isField] at htf
+    | field alias name dirs sid sub =>
+      simp only [plainLeaf, subOf, nameOf, Bool.and_eq_true, bne_iff_ne, ne_eq] at hpl
+      obtain ⟨hsub, hn⟩ := hpl
+      have hn' : (name == typenameField) = false := by simpa using hn
+      simp only [nameOf]
+      cases o with
       | none =>
-        rw [hlk, hcond] at hg
-        cases hg
-      | some v =>
-        right
-        rw [hlk] at hg
-        simp only [hname2, if_true] at hg
-        cases v <;> simp at hg
-        have hs := hg.symm
-        subst hs
-        by_cases hte : tv.isEmpty = true
-        · -- root class: `__typename: str`
-          obtain ⟨_, hleaf, hkS⟩ := rootTnOK_spec (hroot hte)
-          have hsubE : sub.isEmpty = true := by
-            have hlx' := hlx
-            simp only [aSel1, hname, if_true, Bool.and_eq_true] at hlx'
-            exact hlx'.2.2
-          have hdecl : aDecl env cn tn tv alias name dirs sub =
-              { py := pyFieldName env (alias.getD name),
-                ann := condAnn (wrapAnn (ResultLeaf.leafBase env tnT.base) true tnT) dirs,
-                alias := if pyFieldName env (alias.getD name) != alias.getD name then some (alias.getD name) else none,
-                discriminator := false, defaultNone := hasConditionalDirective dirs } := by
-            simp only [aDecl, hname, hte, Bool.not_true, Bool.and_false, Bool.false_eq_true, if_false, if_true, hsubE,
-              aDecl_leaf_ann]
-            rw [isUnionAnn_condAnn _ _ (isUnionAnn_wrapAnn _ (by rw [ResultLeaf.leafBase_eq]; exact Or.inl ⟨_, rfl⟩) _ _)]
-          obtain ⟨pv, hpv, hev⟩ := leaf_rt env penv ha tnT hleaf dirs (.str rt) (by simp [nodupKeys])
-            (conforms_string env hkS rt) g (by simp [tnT, wneed]; omega)
-          refine ⟨_, pv, _, _, rfl, ?_, aDecl_key env cn tn tv alias name dirs sub, hev⟩
-          rw [hfw]
-          simp only [hlk, fieldRec, hdecl, Bool.false_eq_true, if_false, hpv]
-        · have hte' : tv.isEmpty = false := by simpa using hte
-          obtain ⟨g', rfl⟩ : ∃ g', g = g' + 1 := ⟨g - 1, by omega⟩
-          refine ⟨_, .str rt, _, _, rfl, ?_, aDecl_key env cn tn tv alias name dirs sub, by simp [dump, J.eqv]⟩
-          rw [hfw]
-          simp only [hlk, fieldRec, aDecl, hname, hte', Bool.not_false, Bool.and_self, if_true, Bool.false_eq_true, if_false]
-          rw [validate_literal_succ penv g' _ rt ((mem_sortStr rt tv).mpr (hrts hte' rt hrt))]
-    · have hname' : (name == typenameField) = false := by simpa using hname
-      have hname2 : (name == Tables.typenameFieldName) = false := hname'
-      have hxf := mem_rflat_notTn hx hname'
-      cases hlk : J.lookup (alias.getD name) kvs with
-      | none =>
-        left
-        refine ⟨rfl, ?_⟩
-        rw [hlk] at hg
-        have hd : (aDecl env cn tn tv alias name dirs sub).defaultNone = true := by
-          simp only [aDecl, hname', Bool.false_and, Bool.false_eq_true, if_false]
-          exact hg
-        rw [hfw]
-        simp only [hlk, hd, if_true]
-      | some v =>
-        right
-        rw [hlk] at hg
-        simp only [hname2, Bool.false_eq_true, if_false] at hg
-        have hlx' := hlx
-        simp only [aSel1, hname', Bool.false_eq_true, if_false, Bool.and_eq_true, List.all_eq_true, beq_iff_eq] at hlx'
-        obtain ⟨_, ⟨hfd, htypes⟩, _⟩ := hlx'
+        have hx : Selection.field alias name dirs sid sub ∈ rflat a env tn sel := (tnodes_own _ _ _ _ _).mp ht
+        obtain ⟨_, hlx⟩ := hfl _ hx
+        have hxf := mem_rflat_notTn hx hn'
+        simp only [aSel1, hn', Bool.false_eq_true, if_false, Bool.and_eq_true, List.all_eq_true, beq_iff_eq, hsub, if_true] at hlx
+        obtain ⟨_, ⟨hfd, htypes⟩, hleaf⟩ := hlx
         obtain ⟨fd, hfd'⟩ := Option.isSome_iff_exists.mp hfd
         have hT : fieldT env tn name = fd.type := by simp [fieldT, hfd']
         have hrtfd := htypes rt hrt
         rw [hfd'] at hrtfd
-        cases hfr : env.schema.fieldOf? rt name with
-        | none => rw [hfr] at hrtfd; simp at hrtfd
-        | some fd2 =>
-          rw [hfr] at hrtfd hg
-          have hty : fd2.type = fieldT env tn name := by rw [hT]; simpa using hrtfd
-          simp only [hty] at hg
-          obtain ⟨pv, hpv, hev⟩ := field_rt env penv frags M (k + 1) ha hbm IH cn tn rts tv alias name dirs sid sub v hname' hlx
-            (fun c hc => hcls c (by
-              simp only [aClass]
-              apply List.mem_cons_of_mem
-              rw [← rflat_extra env cn tn a sel]
-              exact List.mem_flatMap.mpr ⟨_, hx, hc⟩))
-            (Nat.le_trans (agfuel_rflat a env tn sel _ hx) hfuel)
-            (hkv _ (lookup_mem hlk)) hg g (by have := avneed_flat env cn tn sel _ hxf; omega)
-          refine ⟨v, pv, _, _, rfl, ?_, aDecl_key env cn tn tv alias name dirs sub, hev⟩
+        refine ⟨hn', ?_, hleaf, ?_⟩
+        · cases hfr : env.schema.fieldOf? rt name with
+          | none => rw [hfr] at hrtfd; simp at hrtfd
+          | some fd2 =>
+            rw [hfr] at hrtfd
+            exact ⟨fd2, rfl, by rw [hT]; simpa using hrtfd⟩
+        · have := avneed_flat env cn tn sel _ hxf
+          simp only [avneed1, hsub, Bool.true_or, if_true] at this
+          omega
+      | some o' =>
+        obtain ⟨g0, hocc, hp⟩ := (tnodes_inh _ _ _ _ _ _).mp ht
+        obtain ⟨hkind, hall, f, hf, hon⟩ := occurs_spec hloc hocc
+        have hrt' : rt = tn := hall rt hrt
+        obtain ⟨hfm, _⟩ := C01Mix.find_mem hf
+        obtain ⟨_, _, _, hlocf, hfull, _⟩ := C01Mix.fragOK_spec (G.hfr f hfm)
+        obtain ⟨hstab, hspec⟩ := inhOf_spec env K G.hfr hf
+        obtain ⟨_, hlx, _⟩ := hspec _ hp
+        simp only at hlx
+        rw [hon] at hlx
+        simp only [C01Mix.mLocal1, Bool.and_eq_true, hsub, if_true] at hlx
+        obtain ⟨⟨⟨_, _⟩, hfd⟩, hleaf⟩ := hlx
+        obtain ⟨fd, hfd'⟩ := Option.isSome_iff_exists.mp hfd
+        have hT : fieldT env tn name = fd.type := by simp [fieldT, hfd']
+        have hm : (o', Selection.field alias name dirs sid sub) ∈ C01Mix.mflat env K (pascal f.name) f.sel := by
+          rw [hstab K (Nat.le_refl K)]; exact hp
+        obtain ⟨hn1, _⟩ := C01Mix.mneed_field env K G.hfr K (pascal f.name) f.on f.sel hfull hlocf o' alias name dirs sid sub hm
+        rw [hon] at hn1
+        have hFb := G.need f hfm
+        rw [hon] at hFb
+        exact ⟨hn', ⟨fd, by rw [hrt']; exact hfd', hT.symm⟩, hleaf, by omega⟩
+  obtain ⟨fs, hfs, heq, hkeysD⟩ := mapE_fields (fieldWith penv penv.clsFuel (validate penv g) kvs) kvs
+    (fun d => d.alias.getD d.py) (allFields penv penv.clsFuel cn) (by
+    intro d hd
+    obtain ⟨t, ht, htf, hpy, hform⟩ := hA1 d hd
+    obtain ⟨gr, hgk, hgn, hgok, hgc, hgl, hgu⟩ := hr2 t ht
+    have hkeymem : keyOf t.2 ∈ (cnodes a env tn sel).map keyOf := List.mem_map.mpr ⟨t.2, hcn t ht, rfl⟩
+    have hpylk : pyFieldName env (keyOf t.2) = keyOf t.2 ∨ J.lookup (pyFieldName env (keyOf t.2)) kvs = none := by
+      rcases hD3 _ (hcn t ht) with h | h
+      · exact Or.inl h
+      · exact Or.inr ((lookup_none_iff _ _).mpr (fun hm => h (hsubkeys _ hm)))
+    rcases hform with ⟨hpl, rfl⟩ | ⟨hpl, hal, hdisc, ⟨t', ht', hk', hann⟩, hdn⟩
+    · -- the node owns its key: a composite field or `__typename`
+      have hg := hgok
+      rw [hgu hpl] at hg
+      obtain ⟨o, y⟩ := t
+      cases y with
+      | spread g' d' => simp [isField] at htf
+      | inline on d' sid' ss' => simp [isField] at htf
+      | field alias name dirs sid sub =>
+      simp only [declOf_key _ _ _ _ _ htf, keyOf]
+      simp only [keyOf] at hpylk
+      cases o with
+      | none =>
+        have hx : Selection.field alias name dirs sid sub ∈ rflat a env tn sel := (tnodes_own _ _ _ _ _).mp ht
+        obtain ⟨_, hlx⟩ := hfl _ hx
+        simp only [declOf]
+        have hfw := fieldWith_gen penv penv.clsFuel (validate penv g) kvs (aDecl env cn tn tv alias name dirs sub)
+          (alias.getD name) (by rw [aDecl_alias, aDecl_py]) (by rw [aDecl_py]; exact hpylk)
+        simp only [sentOf] at hg
+        rw [applySel_field] at hg
+        simp only [groupOK, collOf, isConditional_eq, Bool.false_or] at hg
+        by_cases hname : (name == typenameField) = true
+        · -- `__typename`
+          have hlx' := hlx
+          simp only [aSel1, hname, if_true, Bool.and_eq_true, Bool.not_eq_true'] at hlx'
+          obtain ⟨_, ⟨⟨_, hcond⟩, _⟩⟩ := hlx'
+          have hany : (rflat a env tn sel).any isTnSel = true :=
+            List.any_eq_true.mpr ⟨_, hx, by simpa [isTnSel] using hname⟩
+          obtain ⟨hroot, hrts⟩ := htvc hany
+          have hname2 : (name == Tables.typenameFieldName) = true := hname
+          cases hlk : J.lookup (alias.getD name) kvs with
+          | none =>
+            rw [hlk, hcond] at hg
+            cases hg
+          | some v =>
+            right
+            rw [hlk] at hg
+            simp only [hname2, if_true] at hg
+            cases v <;> simp at hg
+            have hs := hg.symm
+            subst hs
+            by_cases hte : tv.isEmpty = true
+            · -- root class: `__typename: str`
+              obtain ⟨_, hleaf, hkS⟩ := rootTnOK_spec (hroot hte)
+              have hsubE : sub.isEmpty = true := by
+                have hlx' := hlx
+                simp only [aSel1, hname, if_true, Bool.and_eq_true] at hlx'
+                exact hlx'.2.2
+              have hdecl : aDecl env cn tn tv alias name dirs sub =
+                  { py := pyFieldName env (alias.getD name),
+                    ann := condAnn (wrapAnn (ResultLeaf.leafBase env tnT.base) true tnT) dirs,
+                    alias := if pyFieldName env (alias.getD name) != alias.getD name then some (alias.getD name) else none,
+                    discriminator := false, defaultNone := hasConditionalDirective dirs } := by
+                simp only [aDecl, hname, hte, Bool.not_true, Bool.and_false, Bool.false_eq_true, if_false, if_true, hsubE,
+                  aDecl_leaf_ann]
+                rw [isUnionAnn_condAnn _ _ (isUnionAnn_wrapAnn _ (by rw [ResultLeaf.leafBase_eq]; exact Or.inl ⟨_, rfl⟩) _ _)]
+              obtain ⟨pv, hpv, hev⟩ := leaf_rt env penv G.ha tnT hleaf dirs (.str rt) (by simp [nodupKeys])
+                (conforms_string env hkS rt) g (by simp [tnT, wneed]; omega)
+              refine ⟨_, pv, _, _, rfl, ?_, aDecl_key env cn tn tv alias name dirs sub, hev⟩
+              rw [hfw]
+              simp only [hlk, fieldRec, hdecl, Bool.false_eq_true, if_false, hpv]
+            · have hte' : tv.isEmpty = false := by simpa using hte
+              obtain ⟨g', rfl⟩ : ∃ g', g = g' + 1 := ⟨g - 1, by omega⟩
+              refine ⟨_, .str rt, _, _, rfl, ?_, aDecl_key env cn tn tv alias name dirs sub, by simp [dump, J.eqv]⟩
+              rw [hfw]
+              simp only [hlk, fieldRec, aDecl, hname, hte', Bool.not_false, Bool.and_self, if_true, Bool.false_eq_true, if_false]
+              rw [validate_literal_succ penv g' _ rt ((mem_sortStr rt tv).mpr (hrts hte' rt hrt))]
+        · have hname' : (name == typenameField) = false := by simpa using hname
+          have hname2 : (name == Tables.typenameFieldName) = false := hname'
+          have hxf := mem_rflat_notTn hx hname'
+          cases hlk : J.lookup (alias.getD name) kvs with
+          | none =>
+            left
+            refine ⟨rfl, ?_⟩
+            rw [hlk] at hg
+            have hd' : (aDecl env cn tn tv alias name dirs sub).defaultNone = true := by
+              simp only [aDecl, hname', Bool.false_and, Bool.false_eq_true, if_false]
+              exact hg
+            rw [hfw]
+            simp only [hlk, hd', if_true]
+          | some v =>
+            right
+            rw [hlk] at hg
+            simp only [hname2, Bool.false_eq_true, if_false] at hg
+            have hlx' := hlx
+            simp only [aSel1, hname', Bool.false_eq_true, if_false, Bool.and_eq_true, List.all_eq_true, beq_iff_eq] at hlx'
+            obtain ⟨_, ⟨hfd, htypes⟩, _⟩ := hlx'
+            obtain ⟨fd, hfd'⟩ := Option.isSome_iff_exists.mp hfd
+            have hT : fieldT env tn name = fd.type := by simp [fieldT, hfd']
+            have hrtfd := htypes rt hrt
+            rw [hfd'] at hrtfd
+            cases hfr : env.schema.fieldOf? rt name with
+            | none => rw [hfr] at hrtfd; simp at hrtfd
+            | some fd2 =>
+              rw [hfr] at hrtfd hg
+              have hty : fd2.type = fieldT env tn name := by rw [hT]; simpa using hrtfd
+              simp only [hty] at hg
+              obtain ⟨pv, hpv, hev⟩ := field_rt env penv M K F (k + 1) G IH cn tn rts tv alias name dirs sid sub v hname' hlx
+                (fun c hc => hcls c (by
+                  simp only [aClass]
+                  apply List.mem_cons_of_mem
+                  rw [← rflat_extra env cn tn a sel hcont]
+                  exact List.mem_flatMap.mpr ⟨_, hx, hc⟩))
+                (by have := agfuel_rflat a env tn sel _ hx; omega)
+                (hkv _ (lookup_mem hlk)) hg g (by have := avneed_flat env cn tn sel _ hxf; omega)
+              refine ⟨v, pv, _, _, rfl, ?_, aDecl_key env cn tn tv alias name dirs sub, hev⟩
+              rw [hfw]
+              simp only [hlk, hpv]
+      | some o' =>
+        -- a composite field node inherited from a mixin fragment: the mixin tier's field lemma
+        obtain ⟨g0, hocc, hp⟩ := (tnodes_inh _ _ _ _ _ _).mp ht
+        obtain ⟨hkind, hall, f, hf, hon⟩ := occurs_spec hloc hocc
+        have hrt' : rt = tn := hall rt hrt
+        obtain ⟨hfm, _⟩ := C01Mix.find_mem hf
+        obtain ⟨_, _, _, hlocf, hfull, _⟩ := C01Mix.fragOK_spec (G.hfr f hfm)
+        obtain ⟨hstab, hspec⟩ := inhOf_spec env K G.hfr hf
+        obtain ⟨_, hlx, horig⟩ := hspec _ hp
+        simp only at hlx horig
+        rw [hon] at hlx
+        simp only [declOf]
+        have hfw := fieldWith_plain penv penv.clsFuel (validate penv g) kvs (fieldDecl env o' tn alias name dirs sub)
+          (alias.getD name) rfl rfl hpylk
+        simp only [sentOf, groupOK, collOf] at hg
+        cases hlk : J.lookup (alias.getD name) kvs with
+        | none =>
+          left
+          refine ⟨rfl, ?_⟩
+          rw [hlk] at hg
+          have hd' : (fieldDecl env o' tn alias name dirs sub).defaultNone = true := by
+            simpa [fieldDecl, Exec.isConditional, hasConditionalDirective] using hg
           rw [hfw]
-          simp only [hlk, hpv])
-  have hkD : (dumpFields (fs.filterMap id)).map (·.1) = ((rflat a env tn sel).map keyOf).filter (fun k => J.hasKey k kvs) := by
-    rw [hkeysD, decls_map env cn tn tv (fun d => d.alias.getD d.py) id (fun al n d s => aDecl_key env cn tn tv al n d s) _
-      (rflat_isField a hloc)]
-    simp
+          simp only [hlk, hd', if_true]
+        | some v =>
+          right
+          rw [hlk] at hg
+          have hlx' := hlx
+          simp only [C01Mix.mLocal1, Bool.and_eq_true] at hlx'
+          obtain ⟨⟨⟨hname, _⟩, hfd⟩, _⟩ := hlx'
+          have hname' : (name == Tables.typenameFieldName) = false := by simpa [typenameField] using hname
+          obtain ⟨fd, hfd'⟩ := Option.isSome_iff_exists.mp hfd
+          have hT : fieldT env tn name = fd.type := by simp [fieldT, hfd']
+          rw [hrt'] at hg
+          simp only [hname', Bool.false_eq_true, if_false, hfd', ← hT] at hg
+          have hm : (o', Selection.field alias name dirs sid sub) ∈ C01Mix.mflat env K (pascal f.name) f.sel := by
+            rw [hstab K (Nat.le_refl K)]; exact hp
+          obtain ⟨hn1, hn2⟩ := C01Mix.mneed_field env K G.hfr K (pascal f.name) f.on f.sel hfull hlocf o' alias name dirs sid sub hm
+          rw [hon] at hn1 hn2
+          have hFb := G.need f hfm
+          rw [hon] at hFb
+          have hsubcls : ∀ c ∈ C01Mix.mExtra1 env o' tn (.field alias name dirs sid sub), penv.class? c.name = some c := by
+            intro c hc
+            rcases horig with ⟨rfl, hx⟩ | ⟨f', hf', rfl, hx, hon'⟩
+            · refine G.frags f hfm c ?_
+              rw [← hon] at hc
+              exact List.mem_cons_of_mem _ (C01Mix.mem_mExtra hx hc)
+            · refine G.frags f' hf' c ?_
+              rw [← hon, ← hon'] at hc
+              exact List.mem_cons_of_mem _ (C01Mix.mem_mExtra hx hc)
+          have hsub' : sub.isEmpty = false := by
+            cases hs : sub.isEmpty with
+            | false => rfl
+            | true =>
+              simp only [plainLeaf, subOf, nameOf, hs, Bool.true_and, bne_eq_false_iff_eq] at hpl
+              rw [hpl] at hname
+              simp at hname
+          obtain ⟨k', hk'lt, hk'full, hk'b⟩ := hn2 hsub'
+          obtain ⟨pv, hpv, hev⟩ := C01Mix.field_rt_mix env penv K (k + 1) G.ha hmixIH o' tn alias name dirs sid sub v hlx hsubcls
+            (hkv _ (lookup_mem hlk)) hg k' (fun _ => ⟨by omega, by omega, hk'full⟩) g
+            (by simp only [hsub', Bool.false_eq_true, if_false]; omega)
+          refine ⟨v, pv, _, _, rfl, ?_, fieldDecl_key env o' tn alias name dirs sub, hev⟩
+          rw [hfw]
+          simp only [hlk, hpv]
+    · -- a key reached by leaf selections (one or several): the merged declaration
+      have hkd : d.alias.getD d.py = keyOf t.2 := by
+        rw [hal, hpy]
+        by_cases h : pyFieldName env (keyOf t.2) = keyOf t.2
+        · simp [h]
+        · simp [h]
+      simp only [hkd]
+      have hfw := fieldWith_gen penv penv.clsFuel (validate penv g) kvs d (keyOf t.2) (by rw [hal, hpy]) (by rw [hpy]; exact hpylk)
+      -- the node `t'` whose annotation survived: a plain leaf of the same field
+      have hpl' : plainLeaf t'.2 = true ∧ nameOf t'.2 = nameOf t.2 := by
+        rcases hD1 t.2 (hcn t ht) with h | h
+        · have := unique_tnode h ht ht' hk'
+          rw [this]; exact ⟨hpl, rfl⟩
+        · exact h t'.2 (hcn t' ht') hk'
+      have hannE : d.ann = condAnn (wrapAnn (ResultLeaf.leafBase env (fieldT env tn (nameOf t.2)).base) true
+          (fieldT env tn (nameOf t.2))) (dirsOf t'.2) := by
+        rw [hann, declOf_plainLeaf env cn tn tv t' (hTf t' ht') hpl'.1, hpl'.2]
+      obtain ⟨hnm, ⟨fd, hfd, hfdT⟩, hleaf, hfuelT⟩ := hleafnode t ht hpl
+      have hg := hgok
+      simp only [groupOK, hgk, hgn] at hg
+      cases hlk : J.lookup (keyOf t.2) kvs with
+      | none =>
+        left
+        refine ⟨rfl, ?_⟩
+        rw [hlk] at hg
+        have hdn' : d.defaultNone = true := by
+          cases hdv : d.defaultNone with
+          | true => rfl
+          | false =>
+            obtain ⟨t2, ht2, hk2, hc2⟩ := hdn hdv
+            rw [hgc hg t2 ht2 hk2] at hc2
+            cases hc2
+        rw [hfw]
+        simp only [hlk, hdn', if_true]
+      | some v =>
+        right
+        rw [hlk] at hg
+        simp only [hnm, Bool.false_eq_true, if_false, hfd, hgl hpl, List.isEmpty_nil, if_true, hfdT] at hg
+        rw [complete_leaf] at hg
+        obtain ⟨pv, hpv, hev⟩ := leaf_rt env penv G.ha (fieldT env tn (nameOf t.2)) hleaf (dirsOf t'.2) v
+          (hkv _ (lookup_mem hlk)) hg g hfuelT
+        refine ⟨v, pv, d.alias, d.py, rfl, ?_, hkd, hev⟩
+        rw [hfw]
+        simp only [hlk, fieldRec, hdisc, Bool.false_eq_true, if_false, hannE, hpv])
+  -- keys of the declarations
+  have hdkey : ∀ d ∈ allFields penv penv.clsFuel cn, ∃ t ∈ tnodes a env tn sel, d.alias.getD d.py = keyOf t.2 ∧
+      d.py = pyFieldName env (keyOf t.2) := by
+    intro d hd
+    obtain ⟨t, ht, htf, hpy, hform⟩ := hA1 d hd
+    refine ⟨t, ht, ?_, hpy⟩
+    rcases hform with ⟨_, rfl⟩ | ⟨_, hal, _⟩
+    · exact declOf_key _ _ _ _ _ htf
+    · rw [hal, hpy]
+      by_cases h : pyFieldName env (keyOf t.2) = keyOf t.2
+      · simp [h]
+      · simp [h]
+  have hkeysND : ((allFields penv penv.clsFuel cn).map (fun d => d.alias.getD d.py)).Nodup := by
+    have : (allFields penv penv.clsFuel cn).map (·.py) =
+        ((allFields penv penv.clsFuel cn).map (fun d => d.alias.getD d.py)).map (pyFieldName env) := by
+      rw [List.map_map]
+      apply List.map_congr_left
+      intro d hd
+      obtain ⟨t, _, h1, h2⟩ := hdkey d hd
+      simp only [Function.comp]
+      rw [h1, h2]
+    rw [this] at hA2
+    exact C01Mix.nodup_of_map _ _ hA2
+  have hsubkeys' : ∀ key ∈ kvs.map (·.1), key ∈ (allFields penv penv.clsFuel cn).map (fun d => d.alias.getD d.py) := by
+    intro key hk
+    obtain ⟨p, hp, rfl⟩ := List.mem_map.mp hk
+    obtain ⟨t, ht, htk⟩ := hr1 p hp
+    obtain ⟨d, hd, hdp⟩ := hA3 t ht
+    obtain ⟨t2, ht2, h1, h2⟩ := hdkey d hd
+    refine List.mem_map.mpr ⟨d, hd, ?_⟩
+    rw [h1, ← htk]
+    exact hD2 _ (hcn t2 ht2) _ (hcn t ht) (by rw [← h2, hdp])
   refine ⟨.model cn (fs.filterMap id), ?_, ?_⟩
   · rw [validate_cls_succ]
     unfold modelWith
-    simp only [hc0, hall, hfs]
+    simp only [hc0, hfs]
   · simp only [dump, J.eqv, Bool.and_eq_true, beq_iff_eq]
-    exact ⟨length_of_keys _ kvs ((rflat a env tn sel).map keyOf) hkD hkeys hkn hsubkeys, heq⟩
+    exact ⟨length_of_keys _ kvs _ hkeysD hkeysND hkn hsubkeys', heq⟩
 
 /-- **part (2), all executor fuels** -/
-theorem val_spec (env : ResultTypes.Env) (penv : Pyd.Env) (frags : List Fragment) (M : List Nat)
-    (ha : ResultLeaf.EnvAgrees env penv) (hbm : penv.class? "BaseModel" = none) : ∀ ef, ValSpec env penv frags M ef
+theorem val_spec (env : ResultTypes.Env) (penv : Pyd.Env) (M : List Nat) (K F : Nat) (G : GH env penv K F) :
+    ∀ ef, ValSpec env penv M K F ef
   | 0 => by
     intro cn tn rt rts sel tv a j _ _ _ _ _ hresp
     simp [Exec.respOK] at hresp
-  | ef + 1 => class_rt env penv frags M ha hbm ef (val_spec env penv frags M ha hbm ef)
+  | ef + 1 => class_rt env penv M K F G ef (val_spec env penv M K F G ef)
 
 end Ariadne.C01Abs
